@@ -25,6 +25,8 @@ Proof.
     + intros H. inversion H; subst. split; assumption.
 Qed.
 
+Ltac nlia := unfold id, wire in *; lia.
+
 Lemma forallb_ltb n l : (forall i, In i l -> i < n) -> forallb (fun i => Nat.ltb i n) l = true.
 Proof. intros H. apply forallb_forall. intros i Hi. apply Nat.ltb_lt. auto. Qed.
 
@@ -418,7 +420,7 @@ Proof.
   assert (HLB : forall y, In y L -> In y nb_b).
   { intros y Hy. apply HinB. apply in_mid_intro. exact Hy. }
   assert (HlenB : length nb_b = S (length L)).
-  { unfold L. rewrite (Permutation_length Hperm), !app_length. cbn. lia. }
+  { unfold L. rewrite (Permutation_length Hperm), !app_length. cbn. nlia. }
   assert (HnextB : In next nb_b) by (apply HinB; apply in_or_app; right; left; reflexivity).
   destruct (pos_in_spec nb_b next HnextB) as (_ & Hjb & Hjbn).
   set (jb := pos_in nb_b next) in *.
@@ -432,7 +434,7 @@ Proof.
       + apply (all_some_idx_seq [] pre (next :: post)). exact Hnd.
       + intros a. rewrite neighbour_index_nbs, Hnbs. reflexivity.
     - rewrite (map_ext _ (fun nb => index_of nb ((pre ++ [next]) ++ post ++ []))).
-      + replace (S (length pre)) with (length (pre ++ [next])) by (rewrite app_length; cbn; lia).
+      + replace (S (length pre)) with (length (pre ++ [next])) by (rewrite app_length; cbn; nlia).
         apply (all_some_idx_seq (pre ++ [next]) post []).
         rewrite app_nil_r, <- app_assoc. exact Hnd.
       + intros a. rewrite neighbour_index_nbs, Hnbs, app_nil_r, <- app_assoc. reflexivity. }
@@ -446,9 +448,9 @@ Proof.
                     (seq 0 (length pre) ++ seq (S (length pre)) (length post)) = seq 2 (length L)).
   { unfold L. rewrite map_app, app_length, seq_app. f_equal.
     - rewrite <- (map_add_seq 2 0). apply map_ext_in. intros i Hi. apply in_seq in Hi.
-      destruct (Nat.ltb_spec i (length pre)); lia.
-    - replace (2 + length pre) with (S (length pre) + 1) by lia. rewrite <- map_add_seq.
-      apply map_ext_in. intros i Hi. apply in_seq in Hi. destruct (Nat.ltb_spec i (length pre)); lia. }
+      destruct (Nat.ltb_spec i (length pre)); nlia.
+    - replace (2 + length pre) with (S (length pre) + 1) by nlia. rewrite <- map_add_seq.
+      apply map_ext_in. intros i Hi. apply in_seq in Hi. destruct (Nat.ltb_spec i (length pre)); nlia. }
   unfold id, wire in *. rewrite Hlegs. rewrite nvirt_nbs. fold nb_b.
   assert (HposB : forall a, In a L -> pos_in nb_b a < length nb_b /\ pos_in nb_b a <> jb).
   { intros a Ha. destruct (pos_in_spec nb_b a (HLB a Ha)) as (_ & H1 & H2). split; [exact H1|].
@@ -456,14 +458,14 @@ Proof.
   rewrite g_tensordot_ok.
   2:{ rewrite !app_length, map_length, seq_length. reflexivity. }
   2:{ intros i Hi. rewrite Hkb. cbn [length]. rewrite map_length. apply in_app_or in Hi.
-      destruct Hi as [Hi|[<-|[]]]; [apply in_seq in Hi|]; lia. }
+      destruct Hi as [Hi|[<-|[]]]; [apply in_seq in Hi|]; nlia. }
   2:{ intros i Hi. rewrite Hbt, app_length, map_length. cbn. apply in_app_or in Hi.
-      destruct Hi as [Hi|[<-|[]]]; [|lia]. apply in_map_iff in Hi. destruct Hi as (a & <- & Ha).
-      destruct (HposB a Ha). lia. }
-  2:{ apply NoDup_app_one. - apply seq_NoDup. - intros Hi. apply in_seq in Hi. lia. }
+      destruct Hi as [Hi|[<-|[]]]; [|nlia]. apply in_map_iff in Hi. destruct Hi as (a & <- & Ha).
+      destruct (HposB a Ha). nlia. }
+  2:{ apply NoDup_app_one. - apply seq_NoDup. - intros Hi. apply in_seq in Hi. nlia. }
   2:{ apply NoDup_app_one.
       - apply NoDup_map_inj_in; [|exact Hnd']. intros a b Ha Hb. apply pos_in_inj; apply HLB; assumption.
-      - intros Hi. apply in_map_iff in Hi. destruct Hi as (a & E & Ha). destruct (HposB a Ha). lia. }
+      - intros Hi. apply in_map_iff in Hi. destruct Hi as (a & E & Ha). destruct (HposB a Ha). nlia. }
   (* wires read off the two leg lists *)
   assert (Hwa : map (fun i => nth i (gaxes kb) 0) (seq 2 (length L) ++ [1]) = map x L ++ [o]).
   { rewrite Hkb, map_app. cbn [map nth]. f_equal.
@@ -474,23 +476,1221 @@ Proof.
       rewrite app_nth1 by (rewrite map_length; exact H1).
       rewrite (nth_indep _ 0 (x 0)) by (rewrite map_length; exact H1). rewrite map_nth, H2. reflexivity.
     - f_equal. rewrite <- (map_length x nb_b). apply nth_mid. }
-  rewrite Hwa, Hwb, pairs_same, pairs_diff by exact Hop.
+  unfold id, wire in *. rewrite Hwa, Hwb, pairs_same, pairs_diff by exact Hop.
   eexists. split; [reflexivity|]. cbn [gaxes gatoms gbnd gglue]. split; [|auto].
   (* the surviving axes *)
   rewrite Hkb, Hbt.
   rewrite (dropfrom_one 0 0 _ (wj :: o :: map x L) 0).
-  2:{ cbn. lia. }
-  2:{ intros i Hi. cbn [length] in Hi. rewrite map_length in Hi. cbn [Nat.add]. rewrite in_app_iff, in_seq. cbn [In]. lia. }
+  2:{ cbn. nlia. }
+  2:{ intros i Hi. cbn [length] in Hi. rewrite map_length in Hi. cbn [Nat.add]. rewrite in_app_iff, in_seq. cbn [In]. nlia. }
   rewrite (dropfrom_one 0 0 _ (map x nb_b ++ [p]) jb).
-  2:{ rewrite app_length, map_length. cbn. lia. }
+  2:{ rewrite app_length, map_length. cbn. nlia. }
   2:{ intros i Hi. rewrite app_length, map_length in Hi. cbn in Hi. cbn [Nat.add]. rewrite in_app_iff. cbn [In]. split.
-      - intros [H|[H|[]]]; [|lia]. apply in_map_iff in H. destruct H as (a & <- & Ha). apply HposB. exact Ha.
+      - intros [H|[H|[]]]; [|nlia]. apply in_map_iff in H. destruct H as (a & <- & Ha). apply HposB. exact Ha.
       - intros Hne. destruct (Nat.eq_dec i (length nb_b)) as [->|Hne2]; [right; left; reflexivity|]. left.
-        assert (Hi' : i < length nb_b) by lia.
+        assert (Hi' : i < length nb_b) by nlia.
         apply in_map_iff. exists (nth i nb_b 0). split; [apply pos_in_nth; assumption|].
         apply in_mid_other with (x := next).
         + apply HinB. apply nth_In. exact Hi'.
         + intros E. apply Hne. rewrite <- (pos_in_nth nb_b i HndB Hi'). rewrite E. reflexivity. }
   cbn [nth app]. rewrite app_nth1 by (rewrite map_length; exact Hjb).
   rewrite (nth_indep _ 0 (x 0)) by (rewrite map_length; exact Hjb). rewrite map_nth, Hjbn. reflexivity.
+Qed.
+
+(* ==== (1c) the root: contract_all_neighbour_blocks_to_ket and contract_bra_tensor_all ============================================== *)
+Definition atk_step (blocks : list (id * garr)) (acc : option garr) (nb : id) : option garr :=
+  match acc with
+  | None => None
+  | Some r => match aget nb blocks with Some blk => g_tensordot r blk [0] [0] | None => None end
+  end.
+
+Lemma all_to_ket_fold kt kn blocks :
+  all_to_ket kt kn blocks = fold_left (atk_step blocks) (neighbouring_nodes kn) (Some kt).
+Proof. reflexivity. Qed.
+
+Lemma atk_phase blocks (w : id -> wire) (xs : id -> list wire) (blk : id -> garr) l :
+  (forall nb, In nb l -> aget nb blocks = Some (blk nb) /\ gaxes (blk nb) = w nb :: xs nb) ->
+  forall r rest, gaxes r = map w l ++ rest ->
+  exists r', fold_left (atk_step blocks) l (Some r) = Some r' /\
+     gaxes r' = rest ++ flat_map xs l /\
+     gatoms r' = gatoms r ++ flat_map (fun nb => gatoms (blk nb)) l /\
+     gbnd r' = rev (map w l) ++ gbnd r ++ flat_map (fun nb => gbnd (blk nb)) l /\
+     gglue r' = gglue r ++ flat_map (fun nb => gglue (blk nb)) l.
+Proof.
+  induction l as [|nb l IH]; intros H r rest Hax.
+  - exists r. cbn in *. rewrite !app_nil_r. auto.
+  - destruct (H nb (or_introl eq_refl)) as (Hblk & Hbax).
+    cbn [fold_left]. unfold atk_step at 2. rewrite Hblk. cbn [map app] in Hax.
+    pose proof (g_tensordot_single r (blk nb) [] (w nb) (map w l ++ rest) (xs nb) Hax Hbax) as Hg.
+    cbn [length app] in Hg. rewrite Hg. clear Hg.
+    match goal with |- context [fold_left _ l (Some ?rr)] => set (r1 := rr) end.
+    destruct (IH (fun nb' Hin => H nb' (or_intror Hin)) r1 (rest ++ xs nb)) as (r' & Hf & H1 & H2 & H3 & H4).
+    { subst r1. cbn [gaxes app]. rewrite <- app_assoc. reflexivity. }
+    exists r'. split; [exact Hf|]. subst r1. cbn [gaxes gatoms gbnd gglue] in *.
+    rewrite H1, H2, H3, H4. cbn [flat_map map rev]. rewrite <- !app_assoc. cbn [app]. rewrite <- !app_assoc. auto.
+Qed.
+
+Theorem all_to_ket_axes kt kn blocks (w : id -> wire) (xs : id -> list wire) (blk : id -> garr) rest :
+  gaxes kt = map w (neighbouring_nodes kn) ++ rest ->
+  (forall nb, In nb (neighbouring_nodes kn) -> aget nb blocks = Some (blk nb) /\ gaxes (blk nb) = w nb :: xs nb) ->
+  exists r, all_to_ket kt kn blocks = Some r /\
+    gaxes r = rest ++ flat_map xs (neighbouring_nodes kn) /\
+    gatoms r = gatoms kt ++ flat_map (fun nb => gatoms (blk nb)) (neighbouring_nodes kn) /\
+    gbnd r = rev (map w (neighbouring_nodes kn)) ++ gbnd kt ++ flat_map (fun nb => gbnd (blk nb)) (neighbouring_nodes kn) /\
+    gglue r = gglue kt ++ flat_map (fun nb => gglue (blk nb)) (neighbouring_nodes kn).
+Proof. intros Hax H. rewrite all_to_ket_fold. apply atk_phase; assumption. Qed.
+
+Lemma nth_seq_all {A} (d : A) (l : list A) : map (fun i => nth i l d) (seq 0 (length l)) = l.
+Proof. pose proof (nth_seq_block d [] l []) as H. rewrite app_nil_r in H. exact H. Qed.
+
+Theorem bra_to_ket_all_axes bt kb bn kn (x : id -> wire) o p :
+  NoDup (neighbouring_nodes kn) ->
+  Permutation (neighbouring_nodes bn) (neighbouring_nodes kn) ->
+  gaxes kb = o :: map x (neighbouring_nodes kn) ->
+  gaxes bt = map x (neighbouring_nodes bn) ++ [p] ->
+  o <> p ->
+  exists r, bra_to_ket_all bt kb bn kn = Some r /\
+    gaxes r = [] /\
+    gatoms r = gatoms kb ++ gatoms bt /\
+    gbnd r = map x (neighbouring_nodes bn) ++ gbnd kb ++ gbnd bt /\
+    gglue r = (o, p) :: gglue kb ++ gglue bt.
+Proof.
+  intros Hnd Hperm Hkb Hbt Hop.
+  set (K := neighbouring_nodes kn) in *. set (B := neighbouring_nodes bn) in *.
+  assert (HndB : NoDup B) by (eapply Permutation_NoDup; [symmetry; exact Hperm|exact Hnd]).
+  assert (HBK : forall y, In y B -> In y K) by (intros y; apply Permutation_in; exact Hperm).
+  assert (HKB : forall y, In y K -> In y B) by (intros y; apply Permutation_in; symmetry; exact Hperm).
+  assert (Hlen : length B = length K) by (apply Permutation_length; exact Hperm).
+  unfold bra_to_ket_all. fold B.
+  assert (Hkis : all_some (map (neighbour_index kn) B) = Some (map (pos_in K) B)).
+  { apply all_some_total. intros a Ha. rewrite neighbour_index_nbs. apply pos_in_spec. apply HBK. exact Ha. }
+  unfold id, wire in *. rewrite Hkis. rewrite nvirt_nbs. fold B.
+  rewrite g_tensordot_ok.
+  2:{ rewrite app_length, !map_length, seq_length. reflexivity. }
+  2:{ intros i Hi. rewrite Hkb. cbn [length]. rewrite map_length. apply in_app_or in Hi.
+      destruct Hi as [Hi|[<-|[]]]; [|nlia]. rewrite map_map in Hi. apply in_map_iff in Hi. destruct Hi as (a & <- & Ha).
+      destruct (pos_in_spec K a (HBK a Ha)) as (_ & H1 & _). nlia. }
+  2:{ intros i Hi. apply in_seq in Hi. rewrite Hbt, app_length, map_length. cbn. nlia. }
+  2:{ apply NoDup_app_one.
+      - rewrite map_map. apply NoDup_map_inj_in; [|exact HndB]. intros a b Ha Hb E.
+        apply (pos_in_inj K); auto. nlia.
+      - intros Hi. rewrite map_map in Hi. apply in_map_iff in Hi. destruct Hi as (a & E & _). nlia. }
+  2:{ apply seq_NoDup. }
+  assert (Hwa : map (fun i => nth i (gaxes kb) 0) (map (fun ki => ki + 1) (map (pos_in K) B) ++ [0]) = map x B ++ [o]).
+  { rewrite Hkb, map_app. cbn [map nth]. f_equal. rewrite !map_map. apply map_ext_in. intros a Ha.
+    destruct (pos_in_spec K a (HBK a Ha)) as (_ & H1 & H2). rewrite Nat.add_1_r. cbn [nth].
+    rewrite (nth_indep _ 0 (x 0)) by (rewrite map_length; exact H1). rewrite map_nth, H2. reflexivity. }
+  assert (Hwb : map (fun i => nth i (gaxes bt) 0) (seq 0 (length B + 1)) = map x B ++ [p]).
+  { rewrite Hbt. replace (length B + 1) with (length (map x B ++ [p])) by (rewrite app_length, map_length; reflexivity).
+    apply nth_seq_all. }
+  unfold id, wire in *. rewrite Hwa, Hwb, pairs_same, pairs_diff by exact Hop.
+  eexists. split; [reflexivity|]. cbn [gaxes gatoms gbnd gglue]. split; [|auto].
+  rewrite Hkb, Hbt. rewrite !dropfrom_all; [reflexivity| |].
+  - intros i Hi. rewrite app_length, map_length in Hi. cbn in Hi. cbn [Nat.add]. apply in_seq. nlia.
+  - intros i Hi. cbn [length] in Hi. rewrite map_length in Hi. cbn [Nat.add]. apply in_or_app.
+    destruct i as [|i]; [right; left; reflexivity|]. left. rewrite map_map. apply in_map_iff.
+    exists (nth i K 0). split.
+    + rewrite pos_in_nth by (auto; nlia). nlia.
+    + apply HKB. apply nth_In. nlia.
+Qed.
+
+(* ==== a small solver for permutations of concatenations ================================================================================ *)
+Lemma pf_cons_skip {A} (x y : A) R R' : Permutation R (x :: R') -> Permutation (y :: R) (x :: y :: R').
+Proof. intros H. rewrite H. apply perm_swap. Qed.
+Lemma pf_cons_app {A} (x : A) a R R' : Permutation R (x :: R') -> Permutation (a ++ R) (x :: a ++ R').
+Proof. intros H. rewrite H. symmetry. apply Permutation_middle. Qed.
+Lemma pf_app_cons {A} (a : list A) y R R' : Permutation R (a ++ R') -> Permutation (y :: R) (a ++ y :: R').
+Proof. intros H. rewrite H. apply Permutation_middle. Qed.
+Lemma pf_app_app {A} (a b R R' : list A) : Permutation R (a ++ R') -> Permutation (b ++ R) (a ++ b ++ R').
+Proof. intros H. rewrite H. rewrite !app_assoc. apply Permutation_app_tail. apply Permutation_app_comm. Qed.
+Lemma ps_cons {A} (x : A) L R R' : Permutation R (x :: R') -> Permutation L R' -> Permutation (x :: L) R.
+Proof. intros H1 H2. rewrite H1, H2. reflexivity. Qed.
+Lemma ps_app {A} (a : list A) L R R' : Permutation R (a ++ R') -> Permutation L R' -> Permutation (a ++ L) R.
+Proof. intros H1 H2. rewrite H1, H2. reflexivity. Qed.
+Lemma ps_nil_both {A} (L R : list A) : Permutation (L ++ []) (R ++ []) -> Permutation L R.
+Proof. rewrite !app_nil_r. auto. Qed.
+
+Ltac pf_cons := first [ apply Permutation_refl | apply pf_cons_skip; pf_cons | apply pf_cons_app; pf_cons ].
+Ltac pf_app := first [ apply Permutation_refl | apply pf_app_cons; pf_app | apply pf_app_app; pf_app ].
+Ltac perm_norm := apply ps_nil_both; repeat (progress (rewrite <- ?app_assoc; cbn [app])).
+Ltac perm_loop :=
+  lazymatch goal with
+  | |- Permutation [] [] => constructor
+  | |- Permutation (?x :: ?L) ?R => eapply ps_cons; [pf_cons|perm_loop]
+  | |- Permutation (?a ++ ?L) ?R => eapply ps_app; [pf_app|perm_loop]
+  end.
+Ltac perm_solve := perm_norm; perm_loop.
+
+Example perm_solve_test (a b c : list nat) x y :
+  Permutation ((x :: a ++ b) ++ y :: c) (y :: c ++ (b ++ [x]) ++ a).
+Proof. perm_solve. Qed.
+
+(* ---- flat_map bookkeeping ---------------------------------------------------------------------------------------------------------------- *)
+Lemma flat_map_map {A B C} (f : B -> list C) (g : A -> B) l : flat_map f (map g l) = flat_map (fun a => f (g a)) l.
+Proof. induction l as [|a t IH]; cbn; [reflexivity|]. rewrite IH. reflexivity. Qed.
+
+Lemma flat_map_flat_map {A B C} (f : B -> list C) (g : A -> list B) l :
+  flat_map f (flat_map g l) = flat_map (fun a => flat_map f (g a)) l.
+Proof. induction l as [|a t IH]; cbn; [reflexivity|]. rewrite flat_map_app, IH. reflexivity. Qed.
+
+Lemma flat_map_single {A B} (f : A -> B) l : flat_map (fun a => [f a]) l = map f l.
+Proof. induction l as [|a t IH]; cbn; [reflexivity|]. rewrite IH. reflexivity. Qed.
+
+Lemma perm_flat_map_pointwise {A B} (f g : A -> list B) l :
+  (forall a, In a l -> Permutation (f a) (g a)) -> Permutation (flat_map f l) (flat_map g l).
+Proof.
+  induction l as [|a t IH]; intros H; cbn; [constructor|].
+  apply Permutation_app; [apply H; left; reflexivity|apply IH; intros; apply H; right; assumption].
+Qed.
+
+Lemma perm_flat_map_split {A B} (f g : A -> list B) l :
+  Permutation (flat_map (fun a => f a ++ g a) l) (flat_map f l ++ flat_map g l).
+Proof. induction l as [|a t IH]; cbn; [constructor|]. rewrite IH. perm_solve. Qed.
+
+Lemma flat_map_length_in {A B} (f : A -> list B) l a : In a l -> length (f a) <= length (flat_map f l).
+Proof.
+  induction l as [|b t IH]; [intros []|]. cbn. rewrite app_length. intros [->|H]; [lia|]. specialize (IH H). lia.
+Qed.
+
+(* what the children's blocks contribute, summed over the children's subtrees *)
+Lemma perm_children {A} (f g : id -> list A) cs :
+  (forall c, In c cs -> Permutation (f (rid c)) (flat_map g (rnodes c))) ->
+  Permutation (flat_map f (map rid cs)) (flat_map g (flat_map rnodes cs)).
+Proof.
+  intros H. rewrite flat_map_map, flat_map_flat_map. apply perm_flat_map_pointwise. exact H.
+Qed.
+
+Lemma perm_edge_sum {A} (a b : id -> A) (h : id -> list A) l :
+  Permutation (map b l ++ rev (map a l) ++ flat_map h l) (flat_map (fun c => [a c; b c] ++ h c) l).
+Proof.
+  rewrite <- Permutation_rev. induction l as [|c t IH]; cbn; [constructor|]. rewrite <- IH. perm_solve.
+Qed.
+
+(* ---- the store's view of a node --------------------------------------------------------------------------------------------------------------- *)
+Lemma aget_map_pair {V} (g : nat -> V) l a : In a l -> aget a (map (fun c => (c, g c)) l) = Some (g a).
+Proof.
+  induction l as [|b t IH]; [intros []|]. intros H. cbn. destruct (Nat.eqb_spec a b) as [->|Hne]; [reflexivity|].
+  destruct H as [->|H]; [congruence|]. apply IH. exact H.
+Qed.
+
+Lemma aget_akeys {V} k (l : list (nat * V)) v : aget k l = Some v -> In k (akeys l).
+Proof.
+  induction l as [|[k' v'] t IH]; cbn; [discriminate|]. destruct (Nat.eqb_spec k k') as [->|Hne]; [left; reflexivity|].
+  intros H. right. apply IH. exact H.
+Qed.
+
+Lemma tensor_of_view s n nd :
+  aget n (nodes s) = Some nd -> t_axes s n <> [] ->
+  exists g, tensor_of s n = Some g /\ gaxes g = t_axes s n /\ gatoms g = t_atoms s n /\ gbnd g = t_bnd s n /\
+            gglue g = [] /\ length (gaxes g) = nlegs nd.
+Proof.
+  intros Hn Hax. unfold t_axes, t_atoms, t_bnd in *. unfold tensor_of, logical in *. rewrite Hn in *.
+  destruct (aget n (tensors s)) as [t|]; cbn in *.
+  - eexists. split; [reflexivity|]. cbn. repeat split. unfold permute, nlegs. apply map_length.
+  - congruence.
+Qed.
+
+(* ==== (2) the global theorem for contract_two_ttns ================================================================================================ *)
+Lemma block_two_leaf f ket bra n next kn bn kt bt :
+  aget n (nodes ket) = Some kn -> aget n (nodes bra) = Some bn -> tensor_of ket n = Some kt -> tensor_of bra n = Some bt ->
+  children kn = [] -> children bn = [] -> nopen kn = 1 -> nopen bn = 1 ->
+  block_two (S f) ket bra n next = g_tensordot kt bt [nvirt kn] [nvirt bn].
+Proof.
+  intros H1 H2 H3 H4 H5 H6 H7 H8. cbn [block_two]. rewrite H1, H2, H3, H4, H5, H6, H7, H8. reflexivity.
+Qed.
+
+Lemma block_two_node f ket bra n next kn bn kt bt :
+  aget n (nodes ket) = Some kn -> aget n (nodes bra) = Some bn -> tensor_of ket n = Some kt -> tensor_of bra n = Some bt ->
+  children kn <> [] ->
+  block_two (S f) ket bra n next =
+  match all_some (map (fun c => option_map (fun b => (c, b)) (block_two f ket bra c n)) (children kn)) with
+  | None => None
+  | Some blocks =>
+      match all_but_one_to_ket kt kn next blocks with
+      | Some kb => bra_to_ket_ignore bt kb bn kn next
+      | None => None
+      end
+  end.
+Proof.
+  intros H1 H2 H3 H4 H5. cbn [block_two]. rewrite H1, H2, H3, H4. destruct (children kn); [congruence|reflexivity].
+Qed.
+
+Section Global.
+  Variables ket bra : store.
+  Let kw := up_wire ket. Let bw := up_wire bra. Let ko := open_wire ket. Let bo := open_wire bra.
+  Let AT (m : id) : list nat := t_atoms ket m ++ t_atoms bra m.
+  Let EB (m : id) : list wire := [kw m; bw m] ++ t_bnd ket m ++ t_bnd bra m.
+  Let OP (m : id) : list (wire * wire) := [(ko m, bo m)].
+
+  (* the children's blocks, as a total function of the child id *)
+  Definition blk_of (f : nat) (n : id) (dflt : garr) (c : id) : garr :=
+    match block_two f ket bra c n with Some g => g | None => dflt end.
+
+  Lemma block_two_closed po t : wf_sub ket bra po t ->
+    forall p fuel, po = Some p -> length (rnodes t) <= fuel ->
+    exists g, block_two fuel ket bra (rid t) p = Some g /\
+      gaxes g = [kw (rid t); bw (rid t)] /\
+      Permutation (gatoms g) (flat_map AT (rnodes t)) /\
+      Permutation ([kw (rid t); bw (rid t)] ++ gbnd g) (flat_map EB (rnodes t)) /\
+      Permutation (gglue g) (flat_map OP (rnodes t)).
+  Proof.
+    induction 1 as [po n cs Hok Hcs IH]. intros p fuel -> Hfuel.
+    destruct fuel as [|f]; [cbn in Hfuel; lia|].
+    destruct Hok as (kn & bn & Hk & Hb & Hpk & Hpb & Hck & Hcb & Hnd & Hkax & Hbax & Hop).
+    cbn [opt_list] in Hkax, Hbax.
+    destruct (tensor_of_view ket n kn Hk) as (kt & Hkt & Hkt1 & Hkt2 & Hkt3 & Hkt4 & Hkt5).
+    { rewrite Hkax. cbn. discriminate. }
+    destruct (tensor_of_view bra n bn Hb) as (bt & Hbt & Hbt1 & Hbt2 & Hbt3 & Hbt4 & Hbt5).
+    { rewrite Hbax. cbn. discriminate. }
+    cbn [rid rnodes flat_map]. fold kw bw ko bo in Hkax, Hbax, Hop |- *.
+    destruct cs as [|c0 cs'].
+    - (* leaf *)
+      cbn [map] in *. apply Permutation_sym, Permutation_nil in Hcb. rewrite Hcb in Hbax. cbn [map app] in *.
+      assert (Hvk : nvirt kn = 1) by (unfold nvirt, nparents; rewrite Hpk, Hck; reflexivity).
+      assert (Hvb : nvirt bn = 1) by (unfold nvirt, nparents; rewrite Hpb, Hcb; reflexivity).
+      rewrite (block_two_leaf f ket bra n p kn bn kt bt Hk Hb Hkt Hbt Hck Hcb).
+      2:{ unfold nopen. rewrite <- Hkt5, Hkt1, Hkax, Hvk. reflexivity. }
+      2:{ unfold nopen. rewrite <- Hbt5, Hbt1, Hbax, Hvb. reflexivity. }
+      rewrite Hvk, Hvb. rewrite g_tensordot_ok.
+      2:{ reflexivity. }
+      2:{ intros i [<-|[]]. rewrite Hkt1, Hkax. cbn. lia. }
+      2:{ intros i [<-|[]]. rewrite Hbt1, Hbax. cbn. lia. }
+      2,3: constructor; [intros []|constructor].
+      eexists. split; [reflexivity|]. cbn [gaxes gatoms gbnd gglue]. rewrite Hkt1, Hbt1, Hkax, Hbax.
+      cbn [map nth combine filter fst snd dropfrom memb existsb Nat.eqb orb app].
+      destruct (Nat.eqb_spec (ko n) (bo n)) as [E|_]; [contradiction|]. cbn [negb map app].
+      rewrite Hkt2, Hkt3, Hkt4, Hbt2, Hbt3, Hbt4. unfold AT, EB, OP. cbn [flat_map app]. rewrite !app_nil_r.
+      repeat split; reflexivity.
+    - (* inner node *)
+      set (cs := c0 :: cs') in *. set (ids := map rid cs) in *.
+      assert (Hnbk : neighbouring_nodes kn = [] ++ p :: ids) by (unfold neighbouring_nodes; rewrite Hpk, Hck; reflexivity).
+      assert (Hnbb : neighbouring_nodes bn = p :: children bn) by (unfold neighbouring_nodes; rewrite Hpb; reflexivity).
+      rewrite Hnbk in Hnd. cbn [app] in Hnd.
+      assert (Hpn : ~ In p ids) by (inversion Hnd; assumption).
+      assert (Hpnb : ~ In p (children bn)) by (intros Hin; apply Hpn; eapply Permutation_in; eassumption).
+      rewrite (block_two_node f ket bra n p kn bn kt bt Hk Hb Hkt Hbt).
+      2:{ rewrite Hck. discriminate. }
+      rewrite Hck. set (blk := blk_of f n kt).
+      assert (Hsub : forall c, In c cs ->
+                block_two f ket bra (rid c) n = Some (blk (rid c)) /\
+                gaxes (blk (rid c)) = [kw (rid c); bw (rid c)] /\
+                Permutation (gatoms (blk (rid c))) (flat_map AT (rnodes c)) /\
+                Permutation ([kw (rid c); bw (rid c)] ++ gbnd (blk (rid c))) (flat_map EB (rnodes c)) /\
+                Permutation (gglue (blk (rid c))) (flat_map OP (rnodes c))).
+      { intros c Hc. destruct (IH c Hc n f eq_refl) as (g & Hg & HH).
+        - cbn [rnodes length] in Hfuel. pose proof (flat_map_length_in rnodes cs c Hc). lia.
+        - unfold blk, blk_of. rewrite Hg. split; [reflexivity|exact HH]. }
+      assert (Hids : forall a, In a ids -> exists c, In c cs /\ rid c = a).
+      { intros a Ha. apply in_map_iff in Ha. destruct Ha as (c & E & Hc). eauto. }
+      assert (Hblocks : all_some (map (fun c => option_map (fun b => (c, b)) (block_two f ket bra c n)) ids)
+                        = Some (map (fun c => (c, blk c)) ids)).
+      { apply all_some_total. intros a Ha. destruct (Hids a Ha) as (c & Hc & <-).
+        destruct (Hsub c Hc) as (-> & _). reflexivity. }
+      rewrite Hblocks.
+      destruct (all_but_one_axes kt kn p (map (fun c => (c, blk c)) ids) kw (fun nb => [bw nb]) blk (kw n) [ko n] [] ids Hnbk)
+        as (kb & Hkb & K1 & K2 & K3 & K4).
+      { exact Hnd. }
+      { rewrite Hkt1, Hkax. reflexivity. }
+      { intros nb Hnb. cbn [app] in Hnb. split; [apply aget_map_pair; exact Hnb|].
+        destruct (Hids nb Hnb) as (c & Hc & <-). apply Hsub. exact Hc. }
+      rewrite Hkb. cbn [app] in K1, K2, K3, K4.
+      set (x := fun nb : id => if Nat.eqb nb p then bw n else bw nb).
+      assert (Hx : forall l : list id, ~ In p l -> map x l = map bw l).
+      { intros l Hl. apply map_ext_in. intros a Ha. unfold x. destruct (Nat.eqb_spec a p) as [->|_]; [contradiction|reflexivity]. }
+      destruct (bra_to_ket_ignore_axes bt kb bn kn p x (kw n) (ko n) (bo n) [] ids Hnbk) as (g & Hg & G1 & G2 & G3 & G4).
+      { exact Hnd. }
+      { rewrite Hnbb. cbn [app]. apply perm_skip. exact Hcb. }
+      { rewrite K1. cbn [app]. rewrite flat_map_single, Hx by exact Hpn. reflexivity. }
+      { rewrite Hnbb, Hbt1, Hbax. cbn [map]. rewrite Hx by exact Hpnb. unfold x. rewrite Nat.eqb_refl. reflexivity. }
+      { exact Hop. }
+      exists g. split; [exact Hg|]. cbn [app] in G3.
+      split; [rewrite G1; unfold x; rewrite Nat.eqb_refl; reflexivity|].
+      rewrite G2, G3, G4, K2, K3, K4, Hkt2, Hkt3, Hkt4, Hbt2, Hbt3, Hbt4, (Hx ids Hpn).
+      pose proof (perm_children (fun c => gatoms (blk c)) AT cs (fun c Hc => proj1 (proj2 (proj2 (Hsub c Hc))))) as P1.
+      pose proof (perm_children (fun c => [kw c; bw c] ++ gbnd (blk c)) EB cs
+                    (fun c Hc => proj1 (proj2 (proj2 (proj2 (Hsub c Hc)))))) as P2.
+      pose proof (perm_children (fun c => gglue (blk c)) OP cs (fun c Hc => proj2 (proj2 (proj2 (proj2 (Hsub c Hc)))))) as P3.
+      fold ids in P1, P2, P3. rewrite <- (perm_edge_sum kw bw (fun c => gbnd (blk c)) ids) in P2.
+      rewrite <- P1, <- P2, <- P3. unfold AT at 1. unfold EB at 1. unfold OP at 1.
+      split; [|split]; perm_solve.
+  Qed.
+
+  Lemma wf_sub_nodes po t : wf_sub ket bra po t -> forall m, In m (rnodes t) -> In m (akeys (nodes ket)).
+  Proof.
+    induction 1 as [po n cs Hok Hcs IH]. intros m Hm. cbn [rnodes] in Hm. destruct Hm as [<-|Hm].
+    - destruct Hok as (kn & bn & Hk & _). eapply aget_akeys; eassumption.
+    - apply in_flat_map in Hm. destruct Hm as (c & Hc & Hm). eapply IH; eassumption.
+  Qed.
+
+  Theorem two_closed_aux t : wf_two ket bra t ->
+    exists g, contract_two_ttns ket bra = Some g /\
+      gaxes g = [] /\
+      Permutation (gatoms g) (flat_map AT (rnodes t)) /\
+      Permutation (gbnd g) (flat_map EB (rdesc t) ++ t_bnd ket (rid t) ++ t_bnd bra (rid t)) /\
+      Permutation (gglue g) (flat_map OP (rnodes t)).
+  Proof.
+    intros (Hrk & Hrb & Hnodup & Hwf).
+    assert (Hsize : length (rnodes t) <= length (nodes ket)).
+    { replace (length (nodes ket)) with (length (akeys (nodes ket))) by apply map_length.
+      apply NoDup_incl_length; [exact Hnodup|]. intros m Hm. eapply wf_sub_nodes; eassumption. }
+    inversion Hwf as [po n cs Hok Hcs E1 E2]. subst po t. cbn [rid] in *.
+    destruct Hok as (kn & bn & Hk & Hb & Hpk & Hpb & Hck & Hcb & Hnd & Hkax & Hbax & Hop).
+    cbn [opt_list app] in Hkax, Hbax.
+    destruct (tensor_of_view ket n kn Hk) as (kt & Hkt & Hkt1 & Hkt2 & Hkt3 & Hkt4 & Hkt5).
+    { rewrite Hkax. intros E. apply (f_equal (@length _)) in E. rewrite app_length in E. cbn in E. lia. }
+    destruct (tensor_of_view bra n bn Hb) as (bt & Hbt & Hbt1 & Hbt2 & Hbt3 & Hbt4 & Hbt5).
+    { rewrite Hbax. intros E. apply (f_equal (@length _)) in E. rewrite app_length in E. cbn in E. lia. }
+    fold kw bw ko bo in Hkax, Hbax, Hop |- *.
+    set (ids := map rid cs) in *.
+    assert (Hnbk : neighbouring_nodes kn = ids) by (unfold neighbouring_nodes; rewrite Hpk, Hck; reflexivity).
+    assert (Hnbb : neighbouring_nodes bn = children bn) by (unfold neighbouring_nodes; rewrite Hpb; reflexivity).
+    unfold contract_two_ttns. rewrite Hrk, Hrb, Nat.eqb_refl. cbn [negb]. rewrite Hk, Hb, Hkt, Hbt, Hck.
+    set (f := length (nodes ket)) in *. set (blk := blk_of f n kt).
+    assert (Hsub : forall c, In c cs ->
+              block_two f ket bra (rid c) n = Some (blk (rid c)) /\
+              gaxes (blk (rid c)) = [kw (rid c); bw (rid c)] /\
+              Permutation (gatoms (blk (rid c))) (flat_map AT (rnodes c)) /\
+              Permutation ([kw (rid c); bw (rid c)] ++ gbnd (blk (rid c))) (flat_map EB (rnodes c)) /\
+              Permutation (gglue (blk (rid c))) (flat_map OP (rnodes c))).
+    { intros c Hc. destruct (block_two_closed (Some n) c (Hcs c Hc) n f eq_refl) as (g & Hg & HH).
+      - cbn [rnodes length] in Hsize. pose proof (flat_map_length_in rnodes cs c Hc). lia.
+      - unfold blk, blk_of. rewrite Hg. split; [reflexivity|exact HH]. }
+    assert (Hids : forall a, In a ids -> exists c, In c cs /\ rid c = a).
+    { intros a Ha. apply in_map_iff in Ha. destruct Ha as (c & E & Hc). eauto. }
+    assert (Hblocks : all_some (map (fun c => option_map (fun b => (c, b)) (block_two f ket bra c n)) ids)
+                      = Some (map (fun c => (c, blk c)) ids)).
+    { apply all_some_total. intros a Ha. destruct (Hids a Ha) as (c & Hc & <-).
+      destruct (Hsub c Hc) as (-> & _). reflexivity. }
+    rewrite Hblocks.
+    destruct (all_to_ket_axes kt kn (map (fun c => (c, blk c)) ids) kw (fun nb => [bw nb]) blk [ko n])
+      as (kb & Hkb & K1 & K2 & K3 & K4).
+    { rewrite Hnbk, Hkt1, Hkax. reflexivity. }
+    { rewrite Hnbk. intros nb Hnb. split; [apply aget_map_pair; exact Hnb|].
+      destruct (Hids nb Hnb) as (c & Hc & <-). apply Hsub. exact Hc. }
+    rewrite Hkb. rewrite Hnbk in K1, K2, K3, K4. cbn [app] in K1.
+    destruct (bra_to_ket_all_axes bt kb bn kn bw (ko n) (bo n)) as (g & Hg & G1 & G2 & G3 & G4).
+    { rewrite Hnbk. rewrite Hnbk in Hnd. exact Hnd. }
+    { rewrite Hnbk, Hnbb. exact Hcb. }
+    { rewrite K1, Hnbk, flat_map_single. reflexivity. }
+    { rewrite Hnbb, Hbt1, Hbax. reflexivity. }
+    { exact Hop. }
+    exists g. split; [exact Hg|]. split; [exact G1|].
+    assert (G3' : Permutation (gbnd g) (map bw ids ++ gbnd kb ++ gbnd bt)).
+    { rewrite G3, Hnbb. apply Permutation_app_tail. apply Permutation_map. exact Hcb. }
+    cbn [rnodes rdesc rcs flat_map].
+    pose proof (perm_children (fun c => gatoms (blk c)) AT cs (fun c Hc => proj1 (proj2 (proj2 (Hsub c Hc))))) as P1.
+    pose proof (perm_children (fun c => [kw c; bw c] ++ gbnd (blk c)) EB cs
+                  (fun c Hc => proj1 (proj2 (proj2 (proj2 (Hsub c Hc)))))) as P2.
+    pose proof (perm_children (fun c => gglue (blk c)) OP cs (fun c Hc => proj2 (proj2 (proj2 (proj2 (Hsub c Hc)))))) as P3.
+    fold ids in P1, P2, P3. rewrite <- (perm_edge_sum kw bw (fun c => gbnd (blk c)) ids) in P2.
+    rewrite G2, G3', G4, K2, K3, K4, Hkt2, Hkt3, Hkt4, Hbt2, Hbt3, Hbt4.
+    rewrite <- P1, <- P2, <- P3. unfold AT at 1. unfold OP at 1.
+    split; [|split]; perm_solve.
+  Qed.
+End Global.
+
+(* ==== the global theorem in the vocabulary of Closed.v ================================================================================================ *)
+Lemma rnodes_desc t : rnodes t = rid t :: rdesc t.
+Proof. destruct t. reflexivity. Qed.
+
+(* every block of the recursion: two legs (the ket's and the bra's wire to the parent) and the subtree closed *)
+Theorem block_two_subtree_closed ket bra p t fuel :
+  wf_sub ket bra (Some p) t -> length (rnodes t) <= fuel ->
+  exists g, block_two fuel ket bra (rid t) p = Some g /\
+    gaxes g = [up_wire ket (rid t); up_wire bra (rid t)] /\
+    Permutation (gatoms g) (all_atoms ket bra (rnodes t)) /\
+    Permutation (gbnd g) (edge_wires ket bra (rdesc t) ++ inner_bnd ket bra (rnodes t)) /\
+    Permutation (gglue g) (open_pairs ket bra (rnodes t)).
+Proof.
+  intros Hwf Hfuel. destruct (block_two_closed ket bra (Some p) t Hwf p fuel eq_refl Hfuel) as (g & Hg & H1 & H2 & H3 & H4).
+  exists g. split; [exact Hg|]. split; [exact H1|]. split; [exact H2|]. split.
+  - rewrite rnodes_desc in H3. cbn [flat_map] in H3. rewrite perm_flat_map_split in H3.
+    rewrite <- app_assoc in H3. apply Permutation_app_inv_l in H3. rewrite H3.
+    unfold edge_wires, inner_bnd. rewrite rnodes_desc. cbn [flat_map]. perm_solve.
+  - rewrite H4. unfold open_pairs. rewrite flat_map_single. reflexivity.
+Qed.
+
+(* contract_two_ttns succeeds on every consistent pair of states, whatever the tree and the two (independent)
+   child orders, and its result is the closed network: no axis left, every atom of both states exactly once,
+   every edge wire of both states bound, and the glued pairs are exactly (ket open leg of n, bra open leg of n) *)
+Theorem contract_two_ttns_closed ket bra t :
+  wf_two ket bra t ->
+  exists g, contract_two_ttns ket bra = Some g /\
+    gaxes g = [] /\
+    Permutation (gatoms g) (all_atoms ket bra (rnodes t)) /\
+    Permutation (gbnd g) (edge_wires ket bra (rdesc t) ++ inner_bnd ket bra (rnodes t)) /\
+    Permutation (gglue g) (open_pairs ket bra (rnodes t)).
+Proof.
+  intros Hwf. destruct (two_closed_aux ket bra t Hwf) as (g & Hg & H1 & H2 & H3 & H4).
+  exists g. split; [exact Hg|]. split; [exact H1|]. split; [exact H2|]. split.
+  - rewrite H3, perm_flat_map_split. unfold edge_wires, inner_bnd. rewrite (rnodes_desc t). cbn [flat_map]. perm_solve.
+  - rewrite H4. unfold open_pairs. rewrite flat_map_single. reflexivity.
+Qed.
+
+(* ---- the executable checker is sound ------------------------------------------------------------------------------------------------------------------- *)
+Lemma cl_list_eqb a b : list_eqb a b = true -> a = b.
+Proof.
+  unfold list_eqb. revert b. induction a as [|x a IH]; intros [|y b]; cbn; try discriminate; [reflexivity|].
+  intros H. apply andb_prop in H. destruct H as [H1 H2]. apply andb_prop in H2. destruct H2 as [H2 H3].
+  apply Nat.eqb_eq in H2. subst. f_equal. apply IH. rewrite H1. exact H3.
+Qed.
+
+Lemma opt_eqb_true a b : opt_eqb a b = true -> a = b.
+Proof. destruct a, b; cbn; try discriminate; [|reflexivity]. intros H. apply Nat.eqb_eq in H. subst. reflexivity. Qed.
+
+Lemma perm_of_nodupb_sound l cs : perm_of_nodupb l cs = true -> Permutation l cs.
+Proof.
+  unfold perm_of_nodupb. intros H. apply andb_prop in H. destruct H as [H H3]. apply andb_prop in H. destruct H as [H1 H2].
+  apply NoDup_Permutation_bis.
+  - apply cl_nodupb. exact H1.
+  - apply Nat.leb_le. exact H2.
+  - intros a Ha. rewrite forallb_forall in H3. apply cl_memb_In. apply H3. exact Ha.
+Qed.
+
+Lemma node_okb_sound ket bra p n cs : node_okb ket bra p n cs = true -> node_ok ket bra p n cs.
+Proof.
+  unfold node_okb. destruct (aget n (nodes ket)) as [kn|] eqn:Hk; [|discriminate].
+  destruct (aget n (nodes bra)) as [bn|] eqn:Hb; [|discriminate].
+  intros H. repeat (apply andb_prop in H; let H' := fresh "H" in destruct H as [H H']).
+  exists kn, bn. repeat split; auto using opt_eqb_true, cl_list_eqb, perm_of_nodupb_sound.
+  - apply cl_nodupb. assumption.
+  - apply negb_true_iff, Nat.eqb_neq in H0. exact H0.
+Qed.
+
+Fixpoint rt_rect' (P : rt -> Prop) (H : forall n cs, (forall c, In c cs -> P c) -> P (RN n cs)) (t : rt) : P t :=
+  match t with
+  | RN n cs =>
+      H n cs ((fix G (l : list rt) : forall c, In c l -> P c :=
+                 match l with
+                 | [] => fun c Hc => match Hc with end
+                 | a :: r => fun c Hc => match Hc with
+                                         | or_introl E => eq_ind a P (rt_rect' P H a) c E
+                                         | or_intror Hr => G r c Hr
+                                         end
+                 end) cs)
+  end.
+
+Lemma wf_subb_sound ket bra t : forall p, wf_subb ket bra p t = true -> wf_sub ket bra p t.
+Proof.
+  induction t as [n cs IH] using rt_rect'. intros p H. cbn [wf_subb] in H. apply andb_prop in H. destruct H as [H1 H2].
+  constructor; [apply node_okb_sound; exact H1|].
+  intros c Hc. apply IH; [exact Hc|]. rewrite forallb_forall in H2. apply H2. exact Hc.
+Qed.
+
+Lemma wf_twob_sound ket bra t : wf_twob ket bra t = true -> wf_two ket bra t.
+Proof.
+  unfold wf_twob, wf_two. intros H. repeat (apply andb_prop in H; let H' := fresh "H" in destruct H as [H H']).
+  repeat split; auto using opt_eqb_true, wf_subb_sound. apply cl_nodupb. assumption.
+Qed.
+
+(* the universal theorem with a decidable hypothesis: whenever the checker accepts the two stores, the
+   recursion closes the network over the tree read off the ket store *)
+Theorem two_ok_closed ket bra :
+  two_ok ket bra = true ->
+  exists t g, ket_tree ket = Some t /\ contract_two_ttns ket bra = Some g /\
+    gaxes g = [] /\
+    Permutation (gatoms g) (all_atoms ket bra (rnodes t)) /\
+    Permutation (gbnd g) (edge_wires ket bra (rdesc t) ++ inner_bnd ket bra (rnodes t)) /\
+    Permutation (gglue g) (open_pairs ket bra (rnodes t)).
+Proof.
+  unfold two_ok. destruct (ket_tree ket) as [t|]; [|discriminate]. intros H.
+  destruct (contract_two_ttns_closed ket bra t (wf_twob_sound _ _ _ H)) as (g & Hg). exists t, g. split; [reflexivity|exact Hg].
+Qed.
+
+(* ==== (1c, continued) contracting a running tensor with a node tensor along its neighbour legs ============================================== *)
+Lemma dropfrom_ext {A} s s' idx idx' (l : list A) :
+  (forall i, i < length l -> (In (s + i) idx <-> In (s' + i) idx')) -> dropfrom s idx l = dropfrom s' idx' l.
+Proof.
+  revert s s'. induction l as [|a t IH]; intros s s' H; cbn; [reflexivity|].
+  assert (E : memb s idx = memb s' idx').
+  { specialize (H 0 ltac:(cbn; lia)). rewrite !Nat.add_0_r in H.
+    destruct (memb s idx) eqn:E1, (memb s' idx') eqn:E2; try reflexivity.
+    - apply cl_memb_In in E1. apply H in E1. apply cl_memb_In in E1. congruence.
+    - apply cl_memb_In in E2. apply H in E2. apply cl_memb_In in E2. congruence. }
+  rewrite E. rewrite (IH (S s) (S s')).
+  - reflexivity.
+  - intros i Hi. replace (S s + i) with (s + S i) by lia. replace (S s' + i) with (s' + S i) by lia. apply H. cbn. lia.
+Qed.
+
+(* dropping the positions (in B) of the members of L leaves the members of B not in L, in B's order *)
+Lemma dropfrom_pos (z : nat -> wire) B L extra :
+  NoDup B -> (forall a, In a L -> In a B) -> (forall e, In e extra -> length B <= e) ->
+  dropfrom 0 (map (pos_in B) L ++ extra) (map z B) = map z (filter (fun b => negb (memb b L)) B).
+Proof.
+  intros Hnd HLB Hex.
+  assert (G : forall B1 B2, B = B1 ++ B2 ->
+            dropfrom (length B1) (map (pos_in B) L ++ extra) (map z B2) = map z (filter (fun b => negb (memb b L)) B2)).
+  { intros B1 B2. revert B1. induction B2 as [|b t IH]; intros B1 E; cbn [map dropfrom filter]; [reflexivity|].
+    assert (Hb1 : ~ In b B1). { rewrite E in Hnd. apply NoDup_remove_2 in Hnd. intros Hin. apply Hnd. apply in_or_app. left. exact Hin. }
+    assert (Hpos : pos_in B b = length B1). { unfold pos_in. rewrite E, idx_mid by exact Hb1. reflexivity. }
+    assert (Hm : memb (length B1) (map (pos_in B) L ++ extra) = memb b L).
+    { destruct (memb b L) eqn:Eb.
+      - apply cl_memb_In. apply cl_memb_In in Eb. apply in_or_app. left. rewrite <- Hpos. apply in_map. exact Eb.
+      - apply cl_memb_false. apply cl_memb_false in Eb. intros Hin. apply in_app_or in Hin. destruct Hin as [Hin|Hin].
+        + apply in_map_iff in Hin. destruct Hin as (a & Ea & Ha). apply Eb. replace b with a; [exact Ha|].
+          apply (pos_in_inj B); [apply HLB; exact Ha| |congruence]. rewrite E. apply in_or_app. right. left. reflexivity.
+        + apply Hex in Hin. rewrite E, app_length in Hin. cbn in Hin. lia. }
+    rewrite Hm. specialize (IH (B1 ++ [b])). rewrite app_length in IH. cbn in IH.
+    replace (length B1 + 1) with (S (length B1)) in IH by lia.
+    rewrite IH by (rewrite <- app_assoc; exact E). destruct (memb b L); reflexivity. }
+  apply (G [] B). reflexivity.
+Qed.
+
+Lemma nodup_singleton {A} (l : list A) x : NoDup l -> (forall a, In a l <-> a = x) -> l = [x].
+Proof.
+  intros Hnd H. destruct l as [|a [|b t]].
+  - exfalso. apply (H x). reflexivity.
+  - f_equal. apply H. left. reflexivity.
+  - exfalso. assert (a = x) by (apply H; left; reflexivity). assert (b = x) by (apply H; right; left; reflexivity).
+    subst. inversion Hnd as [|? ? Hni _]. apply Hni. left. reflexivity.
+Qed.
+
+Lemma filter_rest_one B L next : NoDup B -> Permutation B (next :: L) -> filter (fun b => negb (memb b L)) B = [next].
+Proof.
+  intros Hnd Hp. apply nodup_singleton; [apply NoDup_filter; exact Hnd|].
+  assert (HndL : NoDup (next :: L)) by (eapply Permutation_NoDup; eassumption).
+  inversion HndL as [|? ? Hni _]; subst.
+  intros a. rewrite filter_In, negb_true_iff, cl_memb_false. split.
+  - intros [Ha Hn]. apply (Permutation_in _ Hp) in Ha. destruct Ha as [<-|Ha]; [reflexivity|contradiction].
+  - intros ->. split; [apply (Permutation_in _ (Permutation_sym Hp)); left; reflexivity|exact Hni].
+Qed.
+
+Lemma filter_rest_none B L : Permutation B L -> filter (fun b => negb (memb b L)) B = [].
+Proof.
+  intros Hp. assert (H : forall a, In a B -> negb (memb a L) = false).
+  { intros a Ha. apply negb_false_iff, cl_memb_In. eapply Permutation_in; eassumption. }
+  clear Hp. induction B as [|b t IH]; cbn; [reflexivity|]. rewrite (H b) by (left; reflexivity).
+  apply IH. intros a Ha. apply H. right. exact Ha.
+Qed.
+
+Lemma node_contract r nt (z : id -> wire) B L ia o tail pn p :
+  NoDup B -> (forall a, In a L -> In a B) -> NoDup L ->
+  gaxes nt = map z B ++ tail -> pn < length tail -> nth pn tail 0 = p -> o <> p ->
+  length ia = S (length L) -> NoDup ia -> (forall i, In i ia -> i < length (gaxes r)) ->
+  map (fun i => nth i (gaxes r) 0) ia = map z L ++ [o] ->
+  g_tensordot r nt ia (map (pos_in B) L ++ [length B + pn]) =
+  Some {| gaxes := dropfrom 0 ia (gaxes r) ++ map z (filter (fun b => negb (memb b L)) B) ++ dropfrom 0 [pn] tail;
+          gatoms := gatoms r ++ gatoms nt;
+          gbnd := map z L ++ gbnd r ++ gbnd nt;
+          gglue := (o, p) :: gglue r ++ gglue nt |}.
+Proof.
+  intros HndB HLB HndL Hnt Hpn Hp Hop Hlen Hndia Hia Hwa. unfold id, wire in *.
+  assert (Hpos : forall a, In a L -> pos_in B a < length B) by (intros a Ha; apply pos_in_spec; apply HLB; exact Ha).
+  rewrite g_tensordot_ok.
+  2:{ rewrite app_length, map_length, Hlen. cbn. nlia. }
+  2:{ exact Hia. }
+  2:{ intros i Hi. rewrite Hnt, app_length, map_length. apply in_app_or in Hi. destruct Hi as [Hi|[<-|[]]]; [|nlia].
+      apply in_map_iff in Hi. destruct Hi as (a & <- & Ha). specialize (Hpos a Ha). nlia. }
+  2:{ exact Hndia. }
+  2:{ apply NoDup_app_one.
+      - apply NoDup_map_inj_in; [|exact HndL]. intros a b Ha Hb. apply pos_in_inj; apply HLB; assumption.
+      - intros Hi. apply in_map_iff in Hi. destruct Hi as (a & E & Ha). specialize (Hpos a Ha). nlia. }
+  assert (Hwb : map (fun i => nth i (gaxes nt) 0) (map (pos_in B) L ++ [length B + pn]) = map z L ++ [p]).
+  { rewrite Hnt, map_app. cbn [map]. f_equal.
+    - rewrite map_map. apply map_ext_in. intros a Ha. destruct (pos_in_spec B a (HLB a Ha)) as (_ & H1 & H2).
+      rewrite app_nth1 by (rewrite map_length; exact H1).
+      rewrite (nth_indep _ 0 (z 0)) by (rewrite map_length; exact H1). rewrite map_nth, H2. reflexivity.
+    - f_equal. rewrite app_nth2 by (rewrite map_length; nlia). rewrite map_length.
+      replace (length B + pn - length B) with pn by nlia. exact Hp. }
+  unfold id, wire in *. rewrite Hwa, Hwb, pairs_same, pairs_diff by exact Hop.
+  rewrite Hnt, dropfrom_app, map_length.
+  rewrite dropfrom_pos; [|exact HndB|exact HLB|intros e [<-|[]]; nlia].
+  do 4 f_equal.
+  apply dropfrom_ext. intros i Hi. cbn [Nat.add]. rewrite in_app_iff. cbn [In]. split.
+  - intros [H|[H|[]]]; [|left; nlia]. apply in_map_iff in H. destruct H as (a & E & Ha). specialize (Hpos a Ha). nlia.
+  - intros [H|[]]. right. left. nlia.
+Qed.
+
+(* ---- interleaved legs [y; x; y; x; ...] of a three-layer block ---------------------------------------------------------------------------- *)
+Lemma il_drop {A} s idx (y x : nat -> A) L :
+  (forall m, m < length L -> In (s + 2 * m) idx /\ ~ In (s + 2 * m + 1) idx) ->
+  dropfrom s idx (flat_map (fun nb => [y nb; x nb]) L) = map x L.
+Proof.
+  revert s. induction L as [|a t IH]; intros s H; cbn [flat_map map app dropfrom]; [reflexivity|].
+  destruct (H 0 ltac:(cbn; lia)) as [H1 H2]. rewrite Nat.mul_0_r, Nat.add_0_r in H1, H2.
+  apply cl_memb_In in H1. rewrite H1. replace (s + 1) with (S s) in H2 by lia. apply cl_memb_false in H2. rewrite H2.
+  f_equal. apply IH. intros m Hm. specialize (H (S m) ltac:(cbn; lia)).
+  replace (S (S s) + 2 * m) with (s + 2 * S m) by lia. exact H.
+Qed.
+
+Lemma il_drop_idx {A} s n extra (y x : nat -> A) L :
+  length L = n -> (forall e, In e extra -> e < s) ->
+  dropfrom s (map (fun m => s + 2 * m) (seq 0 n) ++ extra) (flat_map (fun nb => [y nb; x nb]) L) = map x L.
+Proof.
+  intros Hn Hex. apply il_drop. intros m Hm. split.
+  - apply in_or_app. left. apply in_map_iff. exists m. split; [reflexivity|]. apply in_seq. lia.
+  - intros Hin. apply in_app_or in Hin. destruct Hin as [Hin|Hin].
+    + apply in_map_iff in Hin. destruct Hin as (m' & E & _). lia.
+    + apply Hex in Hin. lia.
+Qed.
+
+Lemma il_nth_even (y x : nat -> wire) L : forall pre,
+  map (fun m => nth (length pre + 2 * m) (pre ++ flat_map (fun nb => [y nb; x nb]) L) 0) (seq 0 (length L)) = map y L.
+Proof.
+  induction L as [|a t IH]; intros pre; cbn [length seq map flat_map]; [reflexivity|]. f_equal.
+  - rewrite Nat.mul_0_r, Nat.add_0_r. cbn [app]. apply nth_mid.
+  - rewrite <- seq_shift, map_map. specialize (IH (pre ++ [y a; x a])).
+    rewrite <- IH. apply map_ext. intros m. rewrite <- app_assoc. cbn [app]. rewrite app_length. cbn [length]. f_equal. lia.
+Qed.
+
+Lemma NoDup_map_affine s n : NoDup (map (fun m => s + 2 * m) (seq 0 n)).
+Proof. apply NoDup_map_inj_in; [|apply seq_NoDup]. intros a b _ _ E. lia. Qed.
+
+(* ---- get_equivalent_legs ------------------------------------------------------------------------------------------------------------------------ *)
+Lemma ket_positions kn pre next post :
+  neighbouring_nodes kn = pre ++ next :: post -> NoDup (pre ++ next :: post) ->
+  all_some (map (neighbour_index kn) (pre ++ post)) = Some (seq 0 (length pre) ++ seq (S (length pre)) (length post)).
+Proof.
+  intros Hnbs Hnd. rewrite map_app. apply all_some_app.
+  - rewrite (map_ext _ (fun nb => index_of nb ([] ++ pre ++ next :: post))).
+    + apply (all_some_idx_seq [] pre (next :: post)). exact Hnd.
+    + intros a. rewrite neighbour_index_nbs, Hnbs. reflexivity.
+  - rewrite (map_ext _ (fun nb => index_of nb ((pre ++ [next]) ++ post ++ []))).
+    + replace (S (length pre)) with (length (pre ++ [next])) by (rewrite app_length; cbn; lia).
+      apply (all_some_idx_seq (pre ++ [next]) post []).
+      rewrite app_nil_r, <- app_assoc. exact Hnd.
+    + intros a. rewrite neighbour_index_nbs, Hnbs, app_nil_r, <- app_assoc. reflexivity.
+Qed.
+
+Lemma node_positions nd L : (forall a, In a L -> In a (neighbouring_nodes nd)) ->
+  all_some (map (neighbour_index nd) L) = Some (map (pos_in (neighbouring_nodes nd)) L).
+Proof. intros H. apply all_some_total. intros a Ha. rewrite neighbour_index_nbs. apply pos_in_spec. apply H. exact Ha. Qed.
+
+Lemma equivalent_legs_ignore kn nd next pre post :
+  neighbouring_nodes kn = pre ++ next :: post -> NoDup (pre ++ next :: post) ->
+  (forall a, In a (pre ++ post) -> In a (neighbouring_nodes nd)) ->
+  equivalent_legs kn nd (Some next) =
+  Some (seq 0 (length pre) ++ seq (S (length pre)) (length post), map (pos_in (neighbouring_nodes nd)) (pre ++ post)).
+Proof.
+  intros Hnbs Hnd H. destruct (NoDup_mid_notin _ _ _ Hnd) as (Hnpre & Hnpost & _).
+  unfold equivalent_legs. rewrite Hnbs, filter_neq_mid by assumption.
+  pose proof (ket_positions kn pre next post Hnbs Hnd) as E1. pose proof (node_positions nd _ H) as E2.
+  unfold id, wire in *. rewrite E1, E2. reflexivity.
+Qed.
+
+Lemma equivalent_legs_all kn nd :
+  NoDup (neighbouring_nodes kn) -> (forall a, In a (neighbouring_nodes kn) -> In a (neighbouring_nodes nd)) ->
+  equivalent_legs kn nd None =
+  Some (seq 0 (length (neighbouring_nodes kn)), map (pos_in (neighbouring_nodes nd)) (neighbouring_nodes kn)).
+Proof.
+  intros Hnd H. unfold equivalent_legs.
+  assert (E : filter (fun _ : id => true) (neighbouring_nodes kn) = neighbouring_nodes kn).
+  { clear. induction (neighbouring_nodes kn) as [|a t IH]; cbn; [reflexivity|]. rewrite IH. reflexivity. }
+  pose proof (node_positions nd _ H) as E2.
+  assert (E1 : all_some (map (neighbour_index kn) (neighbouring_nodes kn)) = Some (seq 0 (length (neighbouring_nodes kn)))).
+  { rewrite (map_ext _ (fun nb => index_of nb ([] ++ neighbouring_nodes kn ++ []))).
+    - apply (all_some_idx_seq [] (neighbouring_nodes kn) []). rewrite app_nil_r. exact Hnd.
+    - intros a. rewrite neighbour_index_nbs, app_nil_r. reflexivity. }
+  unfold id, wire in *. rewrite E, E1, E2. reflexivity.
+Qed.
+
+Lemma il_length {A} (y x : nat -> A) L : length (flat_map (fun nb => [y nb; x nb]) L) = 2 * length L.
+Proof. induction L as [|a t IH]; cbn [flat_map length app]; [reflexivity|]. rewrite IH. lia. Qed.
+
+Lemma node_contract_e r nt (z : id -> wire) B L ia o tail pn p e :
+  e = length B + pn ->
+  NoDup B -> (forall a, In a L -> In a B) -> NoDup L ->
+  gaxes nt = map z B ++ tail -> pn < length tail -> nth pn tail 0 = p -> o <> p ->
+  length ia = S (length L) -> NoDup ia -> (forall i, In i ia -> i < length (gaxes r)) ->
+  map (fun i => nth i (gaxes r) 0) ia = map z L ++ [o] ->
+  g_tensordot r nt ia (map (pos_in B) L ++ [e]) =
+  Some {| gaxes := dropfrom 0 ia (gaxes r) ++ map z (filter (fun b => negb (memb b L)) B) ++ dropfrom 0 [pn] tail;
+          gatoms := gatoms r ++ gatoms nt;
+          gbnd := map z L ++ gbnd r ++ gbnd nt;
+          gglue := (o, p) :: gglue r ++ gglue nt |}.
+Proof. intros ->. apply node_contract. Qed.
+
+(* ==== (1c) three layers: contract_leaf / contract_subtrees_using_dictionary of state_operator_contraction.py ================================= *)
+Theorem sandwich_leaf_axes kt ot bt kn on bn w y x o oo oi bo :
+  nvirt kn = 1 -> nvirt on = 1 -> nvirt bn = 1 ->
+  gaxes kt = [w; o] -> gaxes ot = [y; oo; oi] -> gaxes bt = [x; bo] ->
+  o <> oi -> oo <> bo ->
+  sandwich_leaf kt ot bt kn on bn =
+  Some {| gaxes := [w; y; x];
+          gatoms := gatoms kt ++ gatoms ot ++ gatoms bt;
+          gbnd := gbnd kt ++ gbnd ot ++ gbnd bt;
+          gglue := (o, oi) :: gglue kt ++ (oo, bo) :: gglue ot ++ gglue bt |}.
+Proof.
+  intros Hk Ho Hb Hkt Hot Hbt H1 H2. unfold sandwich_leaf. rewrite Hk, Ho, Hb. cbn [Nat.add Nat.sub].
+  rewrite g_tensordot_ok.
+  2:{ reflexivity. }
+  2:{ intros i [<-|[]]. rewrite Hot. cbn. lia. }
+  2:{ intros i [<-|[]]. rewrite Hbt. cbn. lia. }
+  2,3: constructor; [intros []|constructor].
+  rewrite Hot, Hbt. cbn [map nth combine filter fst snd dropfrom memb existsb Nat.eqb orb app].
+  destruct (Nat.eqb_spec oo bo) as [E|_]; [contradiction|]. cbn [negb map app].
+  rewrite g_tensordot_ok.
+  2:{ reflexivity. }
+  2:{ intros i [<-|[]]. rewrite Hkt. cbn. lia. }
+  2:{ intros i [<-|[]]. cbn. lia. }
+  2,3: constructor; [intros []|constructor].
+  cbn [gaxes gatoms gbnd gglue]. rewrite Hkt. cbn [map nth combine filter fst snd dropfrom memb existsb Nat.eqb orb app].
+  destruct (Nat.eqb_spec o oi) as [E|_]; [contradiction|]. cbn [negb map app]. reflexivity.
+Qed.
+
+Theorem sandwich_subtree_axes kt ot bt kn on bn next blocks (w y x : id -> wire) (blk : id -> garr) wj o oo oi bo pre post :
+  neighbouring_nodes kn = pre ++ next :: post ->
+  NoDup (pre ++ next :: post) ->
+  Permutation (neighbouring_nodes on) (pre ++ next :: post) ->
+  Permutation (neighbouring_nodes bn) (pre ++ next :: post) ->
+  gaxes kt = map w pre ++ wj :: map w post ++ [o] ->
+  gaxes ot = map y (neighbouring_nodes on) ++ [oo; oi] ->
+  gaxes bt = map x (neighbouring_nodes bn) ++ [bo] ->
+  (forall nb, In nb (pre ++ post) -> aget nb blocks = Some (blk nb) /\ gaxes (blk nb) = [w nb; y nb; x nb]) ->
+  o <> oi -> oo <> bo ->
+  exists r, sandwich_subtree kt ot bt kn on bn next blocks = Some r /\
+    gaxes r = [wj; y next; x next] /\
+    gatoms r = ((gatoms kt ++ flat_map (fun nb => gatoms (blk nb)) (pre ++ post)) ++ gatoms ot) ++ gatoms bt /\
+    gbnd r = map x (pre ++ post) ++
+             (map y (pre ++ post) ++
+              (rev (map w (pre ++ post)) ++ gbnd kt ++ flat_map (fun nb => gbnd (blk nb)) (pre ++ post)) ++ gbnd ot) ++ gbnd bt /\
+    gglue r = (oo, bo) :: ((o, oi) :: (gglue kt ++ flat_map (fun nb => gglue (blk nb)) (pre ++ post)) ++ gglue ot) ++ gglue bt.
+Proof.
+  intros Hnbs Hnd HpO HpB Hkt Hot Hbt Hblk Hooi Hoobo.
+  destruct (NoDup_mid_notin _ _ _ Hnd) as (Hnpre & Hnpost & HndL).
+  destruct (all_but_one_axes kt kn next blocks w (fun nb => [y nb; x nb]) blk wj [o] pre post Hnbs Hnd Hkt Hblk)
+    as (t1 & Ht1 & A1 & A2 & A3 & A4).
+  set (L := pre ++ post) in *. set (n := length L).
+  set (BO := neighbouring_nodes on) in *. set (BB := neighbouring_nodes bn) in *.
+  assert (Hmid : Permutation (pre ++ next :: post) (next :: L)) by (symmetry; apply Permutation_middle).
+  assert (HpO' : Permutation BO (next :: L)) by (rewrite HpO; exact Hmid).
+  assert (HpB' : Permutation BB (next :: L)) by (rewrite HpB; exact Hmid).
+  assert (HndO : NoDup BO) by (eapply Permutation_NoDup; [symmetry; exact HpO|exact Hnd]).
+  assert (HndB : NoDup BB) by (eapply Permutation_NoDup; [symmetry; exact HpB|exact Hnd]).
+  assert (HLO : forall a, In a L -> In a BO).
+  { intros a Ha. apply (Permutation_in _ (Permutation_sym HpO')). right. exact Ha. }
+  assert (HLB : forall a, In a L -> In a BB).
+  { intros a Ha. apply (Permutation_in _ (Permutation_sym HpB')). right. exact Ha. }
+  assert (Hk : nvirt kn = S n).
+  { rewrite nvirt_nbs, Hnbs. unfold n, L. rewrite !app_length. cbn. nlia. }
+  unfold sandwich_subtree. rewrite Ht1.
+  rewrite (equivalent_legs_ignore kn on next pre post Hnbs Hnd HLO), (equivalent_legs_ignore kn bn next pre post Hnbs Hnd HLB).
+  fold L BO BB. rewrite Hk. replace (S n - 1) with n by nlia. rewrite !nvirt_nbs. fold BO BB.
+  (* the operator layer *)
+  assert (Hlegs : map (fun j => 2 * j) (seq 1 n) = map (fun m => 2 + 2 * m) (seq 0 n)).
+  { rewrite <- seq_shift, map_map. apply map_ext. intros m. nlia. }
+  rewrite Hlegs.
+  cbn [app] in A1.
+  rewrite (node_contract_e t1 ot y BO L _ o [oo; oi] 1 oi (length BO + 1) eq_refl HndO HLO HndL Hot).
+  2:{ cbn. nlia. }
+  2:{ reflexivity. }
+  2:{ exact Hooi. }
+  2:{ rewrite app_length, map_length, seq_length. cbn. unfold n. nlia. }
+  2:{ apply NoDup_app_one; [apply NoDup_map_affine|]. intros Hin. apply in_map_iff in Hin. destruct Hin as (m & E & _). nlia. }
+  2:{ intros i Hi. rewrite A1. cbn [length]. rewrite il_length. fold n. apply in_app_or in Hi. destruct Hi as [Hi|[<-|[]]]; [|nlia].
+      apply in_map_iff in Hi. destruct Hi as (m & <- & Hm). apply in_seq in Hm. nlia. }
+  2:{ rewrite A1, map_app, map_map. cbn [map nth]. f_equal. exact (il_nth_even y x L [wj; o]). }
+  rewrite (filter_rest_one BO L next HndO HpO').
+  match goal with |- context [g_tensordot ?tt bt _ _] => set (t2 := tt) end.
+  assert (T2 : gaxes t2 = [wj] ++ map x L ++ [y next] ++ [oo]).
+  { unfold t2. cbn [gaxes]. rewrite A1. change (wj :: o :: flat_map (fun nb => [y nb; x nb]) L)
+      with ([wj] ++ [o] ++ flat_map (fun nb => [y nb; x nb]) L).
+    rewrite !dropfrom_app. cbn [length]. change (0 + 1 + 1) with 2. change (0 + 1) with 1.
+    rewrite dropfrom_keep.
+    2:{ intros i Hi Hin. cbn in Hi. apply in_app_or in Hin. destruct Hin as [Hin|[Hin|[]]]; [|nlia].
+        apply in_map_iff in Hin. destruct Hin as (m & E & _). nlia. }
+    rewrite dropfrom_all.
+    2:{ intros i Hi. cbn in Hi. apply in_or_app. right. left. nlia. }
+    unfold id, wire in *. rewrite (il_drop_idx 2 n [1] y x L eq_refl) by (intros e [<-|[]]; nlia).
+    cbn [dropfrom memb existsb Nat.eqb orb map app]. reflexivity. }
+  (* the bra layer *)
+  rewrite (node_contract_e t2 bt x BB L _ oo [bo] 0 bo (length BB) (eq_sym (Nat.add_0_r _)) HndB HLB HndL Hbt).
+  2:{ cbn. nlia. }
+  2:{ reflexivity. }
+  2:{ exact Hoobo. }
+  2:{ rewrite app_length, seq_length. cbn. unfold n. nlia. }
+  2:{ apply NoDup_app_one; [apply seq_NoDup|]. intros Hin. apply in_seq in Hin. nlia. }
+  2:{ intros i Hi. rewrite T2. rewrite !app_length, map_length. cbn [length]. fold n. apply in_app_or in Hi.
+      destruct Hi as [Hi|[<-|[]]]; [apply in_seq in Hi|]; nlia. }
+  2:{ rewrite T2, map_app. cbn [map]. f_equal.
+      - pose proof (nth_seq_block 0 [wj] (map x L) ([y next] ++ [oo])) as H. rewrite map_length in H. exact H.
+      - f_equal. assert (E : [wj] ++ map x L ++ [y next] ++ [oo] = ([wj] ++ map x L ++ [y next]) ++ oo :: []).
+        { rewrite <- !app_assoc. reflexivity. }
+        rewrite E. replace (S n + 1) with (length ([wj] ++ map x L ++ [y next])) by (rewrite !app_length, map_length; cbn; unfold n; nlia).
+        apply nth_mid. }
+  rewrite (filter_rest_one BB L next HndB HpB').
+  eexists. split; [reflexivity|]. cbn [gaxes gatoms gbnd gglue].
+  split; [|subst t2; cbn [gatoms gbnd gglue]; rewrite A2, A3, A4; auto].
+  rewrite T2. rewrite !dropfrom_app. cbn [length Nat.add]. rewrite map_length. fold n.
+  rewrite (dropfrom_keep 0 _ [wj]).
+  2:{ intros i Hi Hin. cbn in Hi. apply in_app_or in Hin. destruct Hin as [Hin|[Hin|[]]]; [apply in_seq in Hin|]; nlia. }
+  rewrite (dropfrom_all 1 _ (map x L)).
+  2:{ intros i Hi. rewrite map_length in Hi. fold n in Hi. apply in_or_app. left. apply in_seq. nlia. }
+  rewrite (dropfrom_keep _ _ [y next]).
+  2:{ intros i Hi Hin. cbn in Hi. apply in_app_or in Hin. destruct Hin as [Hin|[Hin|[]]]; [apply in_seq in Hin|]; nlia. }
+  rewrite (dropfrom_all _ _ [oo]).
+  2:{ intros i Hi. cbn in Hi. apply in_or_app. right. left. nlia. }
+  cbn [dropfrom memb existsb Nat.eqb orb map app]. reflexivity.
+Qed.
+
+Theorem root_three_axes ckt kt ot kn on blocks (w y x : id -> wire) (blk : id -> garr) o oo oi bo :
+  NoDup (neighbouring_nodes kn) ->
+  Permutation (neighbouring_nodes on) (neighbouring_nodes kn) ->
+  gaxes kt = map w (neighbouring_nodes kn) ++ [o] ->
+  gaxes ot = map y (neighbouring_nodes on) ++ [oo; oi] ->
+  gaxes ckt = map x (neighbouring_nodes kn) ++ [bo] ->
+  (forall nb, In nb (neighbouring_nodes kn) -> aget nb blocks = Some (blk nb) /\ gaxes (blk nb) = [w nb; y nb; x nb]) ->
+  o <> oi -> bo <> oo ->
+  exists r, root_three ckt kt ot kn on blocks = Some r /\
+    gaxes r = [] /\
+    gatoms r = gatoms ckt ++ ((gatoms kt ++ flat_map (fun nb => gatoms (blk nb)) (neighbouring_nodes kn)) ++ gatoms ot) /\
+    gbnd r = map x (neighbouring_nodes kn) ++ gbnd ckt ++
+             (map y (neighbouring_nodes kn) ++
+              (rev (map w (neighbouring_nodes kn)) ++ gbnd kt ++ flat_map (fun nb => gbnd (blk nb)) (neighbouring_nodes kn)) ++ gbnd ot) /\
+    gglue r = (bo, oo) :: gglue ckt ++
+              ((o, oi) :: (gglue kt ++ flat_map (fun nb => gglue (blk nb)) (neighbouring_nodes kn)) ++ gglue ot).
+Proof.
+  intros Hnd HpO Hkt Hot Hckt Hblk Hooi Hboo.
+  destruct (all_to_ket_axes kt kn blocks w (fun nb => [y nb; x nb]) blk [o] Hkt Hblk) as (knb & Hknb & A1 & A2 & A3 & A4).
+  set (K := neighbouring_nodes kn) in *. set (BO := neighbouring_nodes on) in *. set (k := length K).
+  assert (HndO : NoDup BO) by (eapply Permutation_NoDup; [symmetry; exact HpO|exact Hnd]).
+  assert (HKO : forall a, In a K -> In a BO) by (intros a Ha; apply (Permutation_in _ (Permutation_sym HpO)); exact Ha).
+  unfold root_three. rewrite Hknb. rewrite (equivalent_legs_all kn on Hnd HKO). fold K BO.
+  rewrite !nvirt_nbs. fold K BO k. rewrite seq_length. fold k.
+  assert (Hlegs : map (fun j => 2 * j + 1) (seq 0 k) = map (fun m => 1 + 2 * m) (seq 0 k)).
+  { apply map_ext. intros m. nlia. }
+  rewrite Hlegs. cbn [app] in A1.
+  rewrite (node_contract_e knb ot y BO K _ o [oo; oi] 1 oi (length BO + 1) eq_refl HndO HKO Hnd Hot).
+  2:{ cbn. nlia. }
+  2:{ reflexivity. }
+  2:{ exact Hooi. }
+  2:{ rewrite app_length, map_length, seq_length. cbn. unfold k. nlia. }
+  2:{ apply NoDup_app_one; [apply NoDup_map_affine|]. intros Hin. apply in_map_iff in Hin. destruct Hin as (m & E & _). nlia. }
+  2:{ intros i Hi. rewrite A1. cbn [length]. rewrite il_length. fold k. apply in_app_or in Hi. destruct Hi as [Hi|[<-|[]]]; [|nlia].
+      apply in_map_iff in Hi. destruct Hi as (m & <- & Hm). apply in_seq in Hm. nlia. }
+  2:{ rewrite A1, map_app, map_map. cbn [map nth]. f_equal. exact (il_nth_even y x K [o]). }
+  rewrite (filter_rest_none BO K HpO).
+  match goal with |- context [g_tensordot ckt ?tt _ _] => set (khb := tt) end.
+  assert (T2 : gaxes khb = map x K ++ [oo]).
+  { unfold khb. cbn [gaxes]. rewrite A1. change (o :: flat_map (fun nb => [y nb; x nb]) K)
+      with ([o] ++ flat_map (fun nb => [y nb; x nb]) K).
+    rewrite !dropfrom_app. cbn [length]. change (0 + 1) with 1.
+    rewrite dropfrom_all.
+    2:{ intros i Hi. cbn in Hi. apply in_or_app. right. left. nlia. }
+    unfold id, wire in *. rewrite (il_drop_idx 1 k [0] y x K eq_refl) by (intros e [<-|[]]; nlia).
+    cbn [dropfrom memb existsb Nat.eqb orb map app]. reflexivity. }
+  assert (Hsl : seq 0 k ++ [k] = seq 0 (S k)) by (rewrite seq_S; reflexivity).
+  rewrite Hsl.
+  assert (Hl1 : length (gaxes ckt) = S k) by (rewrite Hckt, app_length, map_length; cbn; unfold k; nlia).
+  assert (Hl2 : length (gaxes khb) = S k) by (rewrite T2, app_length, map_length; cbn; unfold k; nlia).
+  rewrite g_tensordot_ok.
+  2:{ reflexivity. }
+  2:{ intros i Hi. apply in_seq in Hi. nlia. }
+  2:{ intros i Hi. apply in_seq in Hi. nlia. }
+  2,3: apply seq_NoDup.
+  assert (Ha : map (fun i => nth i (gaxes ckt) 0) (seq 0 (S k)) = gaxes ckt) by (rewrite <- Hl1; apply nth_seq_all).
+  assert (Hb : map (fun i => nth i (gaxes khb) 0) (seq 0 (S k)) = gaxes khb) by (rewrite <- Hl2; apply nth_seq_all).
+  rewrite Ha, Hb.
+  rewrite !dropfrom_all.
+  2:{ intros i Hi. apply in_seq. nlia. }
+  2:{ intros i Hi. apply in_seq. nlia. }
+  rewrite Hckt, T2. unfold id, wire in *. rewrite pairs_same, pairs_diff by exact Hboo.
+  eexists. split; [reflexivity|]. cbn [gaxes gatoms gbnd gglue app]. subst khb. cbn [gatoms gbnd gglue].
+  rewrite A2, A3, A4. auto.
+Qed.
+
+(* ==== (2') the global theorem for expectation_value ================================================================================================= *)
+Lemma block_three_leaf f woff aoff ket op n next kn on kt ot :
+  aget n (nodes ket) = Some kn -> aget n (nodes op) = Some on -> tensor_of ket n = Some kt -> tensor_of op n = Some ot ->
+  children kn = [] ->
+  block_three (S f) woff aoff ket op n next = sandwich_leaf kt ot (conj_arr woff aoff kt) kn on kn.
+Proof. intros H1 H2 H3 H4 H5. cbn [block_three]. rewrite H1, H2, H3, H4, H5. reflexivity. Qed.
+
+Lemma block_three_node f woff aoff ket op n next kn on kt ot :
+  aget n (nodes ket) = Some kn -> aget n (nodes op) = Some on -> tensor_of ket n = Some kt -> tensor_of op n = Some ot ->
+  children kn <> [] ->
+  block_three (S f) woff aoff ket op n next =
+  match all_some (map (fun c => option_map (fun b => (c, b)) (block_three f woff aoff ket op c n)) (children kn)) with
+  | None => None
+  | Some blocks => sandwich_subtree kt ot (conj_arr woff aoff kt) kn on kn next blocks
+  end.
+Proof.
+  intros H1 H2 H3 H4 H5. cbn [block_three]. rewrite H1, H2, H3, H4. destruct (children kn); [congruence|reflexivity].
+Qed.
+
+Lemma expectation_value_root woff aoff ket op r kn on kt ot :
+  root ket = Some r -> root op = Some r ->
+  aget r (nodes ket) = Some kn -> aget r (nodes op) = Some on -> tensor_of ket r = Some kt -> tensor_of op r = Some ot ->
+  expectation_value woff aoff ket op =
+  match all_some (map (fun c => option_map (fun b => (c, b)) (block_three (length (nodes ket)) woff aoff ket op c r)) (children kn)) with
+  | None => None
+  | Some blocks => root_three (conj_arr woff aoff kt) kt ot kn on blocks
+  end.
+Proof.
+  intros H1 H2 H3 H4 H5 H6. unfold expectation_value. rewrite H1, H2, Nat.eqb_refl. cbn [negb]. rewrite H3, H4, H5, H6. reflexivity.
+Qed.
+
+Lemma last_app_single {A} (l : list A) x d : last (l ++ [x]) d = x.
+Proof. induction l as [|a t IH]; [reflexivity|]. cbn [app]. destruct (t ++ [x]) eqn:E; [destruct t; discriminate|]. exact IH. Qed.
+
+Lemma perm_edge_sum3 {A} (a b c : id -> A) (h : id -> list A) l :
+  Permutation (map c l ++ map b l ++ rev (map a l) ++ flat_map h l) (flat_map (fun m => [a m; b m; c m] ++ h m) l).
+Proof.
+  rewrite <- Permutation_rev. induction l as [|m t IH]; cbn; [constructor|]. rewrite <- IH. perm_solve.
+Qed.
+
+Section Global3.
+  Variables (woff aoff : nat) (ket op : store).
+  Let kw := up_wire ket. Let ow := up_wire op. Let ko := open_wire ket. Let oo := out_wire op. Let oi := in_wire op.
+  Let cw (m : id) : wire := woff + kw m.
+  Let AT (m : id) : list nat := t_atoms ket m ++ t_atoms op m ++ map (Nat.add aoff) (t_atoms ket m).
+  Let EB (m : id) : list wire := [kw m; ow m; cw m] ++ t_bnd ket m ++ t_bnd op m ++ map (Nat.add woff) (t_bnd ket m).
+  Let OP (m : id) : list (wire * wire) := [(ko m, oi m); (oo m, woff + ko m)].
+
+  Definition blk3_of (f : nat) (n : id) (dflt : garr) (c : id) : garr :=
+    match block_three f woff aoff ket op c n with Some g => g | None => dflt end.
+
+  Lemma block_three_closed po t : wf_sub3 woff ket op po t ->
+    forall p fuel, po = Some p -> length (rnodes t) <= fuel ->
+    exists g, block_three fuel woff aoff ket op (rid t) p = Some g /\
+      gaxes g = [kw (rid t); ow (rid t); cw (rid t)] /\
+      Permutation (gatoms g) (flat_map AT (rnodes t)) /\
+      Permutation ([kw (rid t); ow (rid t); cw (rid t)] ++ gbnd g) (flat_map EB (rnodes t)) /\
+      Permutation (gglue g) (flat_map OP (rnodes t)).
+  Proof.
+    induction 1 as [po n cs Hok Hcs IH]. intros p fuel -> Hfuel.
+    destruct fuel as [|f]; [cbn in Hfuel; lia|].
+    destruct Hok as (kn & on & Hk & Ho & Hpk & Hpo & Hck & Hco & Hnd & Hkax & Hoax & Hop1 & Hop2).
+    cbn [opt_list] in Hkax, Hoax.
+    destruct (tensor_of_view ket n kn Hk) as (kt & Hkt & Hkt1 & Hkt2 & Hkt3 & Hkt4 & Hkt5).
+    { rewrite Hkax. cbn. discriminate. }
+    destruct (tensor_of_view op n on Ho) as (ot & Hot & Hot1 & Hot2 & Hot3 & Hot4 & Hot5).
+    { rewrite Hoax. cbn. discriminate. }
+    cbn [rid rnodes flat_map]. fold kw ow ko oo oi in Hkax, Hoax, Hop1, Hop2 |- *.
+    set (bt := conj_arr woff aoff kt).
+    assert (Hb2 : gatoms bt = map (Nat.add aoff) (t_atoms ket n)) by (unfold bt; cbn; rewrite Hkt2; reflexivity).
+    assert (Hb3 : gbnd bt = map (Nat.add woff) (t_bnd ket n)) by (unfold bt; cbn; rewrite Hkt3; reflexivity).
+    assert (Hb4 : gglue bt = []) by (unfold bt; cbn; rewrite Hkt4; reflexivity).
+    destruct cs as [|c0 cs'].
+    - (* leaf *)
+      cbn [map] in *. apply Permutation_sym, Permutation_nil in Hco. rewrite Hco in Hoax. cbn [map app] in *.
+      assert (Hvk : nvirt kn = 1) by (unfold nvirt, nparents; rewrite Hpk, Hck; reflexivity).
+      assert (Hvo : nvirt on = 1) by (unfold nvirt, nparents; rewrite Hpo, Hco; reflexivity).
+      rewrite (block_three_leaf f woff aoff ket op n p kn on kt ot Hk Ho Hkt Hot Hck). fold bt.
+      rewrite (sandwich_leaf_axes kt ot bt kn on kn (kw n) (ow n) (cw n) (ko n) (oo n) (oi n) (woff + ko n) Hvk Hvo Hvk).
+      2:{ rewrite Hkt1. exact Hkax. }
+      2:{ rewrite Hot1. exact Hoax. }
+      2:{ unfold bt. cbn [conj_arr gaxes]. rewrite Hkt1, Hkax. reflexivity. }
+      2:{ exact Hop1. }
+      2:{ exact Hop2. }
+      eexists. split; [reflexivity|]. cbn [gaxes gatoms gbnd gglue].
+      rewrite Hkt2, Hkt3, Hkt4, Hot2, Hot3, Hot4, Hb2, Hb3, Hb4. unfold AT, EB, OP. cbn [flat_map app]. rewrite !app_nil_r.
+      repeat split; reflexivity.
+    - (* inner node *)
+      set (cs := c0 :: cs') in *. set (ids := map rid cs) in *.
+      assert (Hnbk : neighbouring_nodes kn = [] ++ p :: ids) by (unfold neighbouring_nodes; rewrite Hpk, Hck; reflexivity).
+      assert (Hnbo : neighbouring_nodes on = p :: children on) by (unfold neighbouring_nodes; rewrite Hpo; reflexivity).
+      pose proof Hnd as Hnd0. rewrite Hnbk in Hnd. cbn [app] in Hnd.
+      assert (Hpn : ~ In p ids) by (inversion Hnd; assumption).
+      assert (Hpno : ~ In p (children on)) by (intros Hin; apply Hpn; eapply Permutation_in; eassumption).
+      rewrite (block_three_node f woff aoff ket op n p kn on kt ot Hk Ho Hkt Hot).
+      2:{ rewrite Hck. discriminate. }
+      rewrite Hck. fold bt. set (blk := blk3_of f n kt).
+      assert (Hsub : forall c, In c cs ->
+                block_three f woff aoff ket op (rid c) n = Some (blk (rid c)) /\
+                gaxes (blk (rid c)) = [kw (rid c); ow (rid c); cw (rid c)] /\
+                Permutation (gatoms (blk (rid c))) (flat_map AT (rnodes c)) /\
+                Permutation ([kw (rid c); ow (rid c); cw (rid c)] ++ gbnd (blk (rid c))) (flat_map EB (rnodes c)) /\
+                Permutation (gglue (blk (rid c))) (flat_map OP (rnodes c))).
+      { intros c Hc. destruct (IH c Hc n f eq_refl) as (g & Hg & HH).
+        - cbn [rnodes length] in Hfuel. pose proof (flat_map_length_in rnodes cs c Hc). lia.
+        - unfold blk, blk3_of. rewrite Hg. split; [reflexivity|exact HH]. }
+      assert (Hids : forall a, In a ids -> exists c, In c cs /\ rid c = a).
+      { intros a Ha. apply in_map_iff in Ha. destruct Ha as (c & E & Hc). eauto. }
+      assert (Hblocks : all_some (map (fun c => option_map (fun b => (c, b)) (block_three f woff aoff ket op c n)) ids)
+                        = Some (map (fun c => (c, blk c)) ids)).
+      { apply all_some_total. intros a Ha. destruct (Hids a Ha) as (c & Hc & <-).
+        destruct (Hsub c Hc) as (-> & _). reflexivity. }
+      rewrite Hblocks.
+      set (y := fun nb : id => if Nat.eqb nb p then ow n else ow nb).
+      set (x := fun nb : id => if Nat.eqb nb p then cw n else cw nb).
+      assert (Hy : forall l : list id, ~ In p l -> map y l = map ow l).
+      { intros l Hl. apply map_ext_in. intros a Ha. unfold y. destruct (Nat.eqb_spec a p) as [->|_]; [contradiction|reflexivity]. }
+      assert (Hx : forall l : list id, ~ In p l -> map x l = map cw l).
+      { intros l Hl. apply map_ext_in. intros a Ha. unfold x. destruct (Nat.eqb_spec a p) as [->|_]; [contradiction|reflexivity]. }
+      destruct (sandwich_subtree_axes kt ot bt kn on kn p (map (fun c => (c, blk c)) ids) kw y x blk
+                  (kw n) (ko n) (oo n) (oi n) (woff + ko n) [] ids Hnbk)
+        as (g & Hg & G1 & G2 & G3 & G4).
+      { exact Hnd. }
+      { rewrite Hnbo. cbn [app]. apply perm_skip. exact Hco. }
+      { rewrite Hnbk. reflexivity. }
+      { rewrite Hkt1, Hkax. reflexivity. }
+      { rewrite Hnbo, Hot1, Hoax. cbn [map]. rewrite Hy by exact Hpno. unfold y. rewrite Nat.eqb_refl.
+        reflexivity. }
+      { unfold bt. cbn [conj_arr gaxes]. rewrite Hkt1, Hkax, Hnbk. cbn [app map]. rewrite Hx by exact Hpn.
+        unfold x. rewrite Nat.eqb_refl. rewrite map_app, map_map. reflexivity. }
+      { intros nb Hnb. cbn [app] in Hnb. split; [apply aget_map_pair; exact Hnb|].
+        destruct (Hids nb Hnb) as (c & Hc & <-). destruct (Hsub c Hc) as (_ & Hax & _). rewrite Hax.
+        unfold y, x. destruct (Nat.eqb_spec (rid c) p) as [E|_]; [exfalso; apply Hpn; rewrite <- E; exact Hnb|reflexivity]. }
+      { exact Hop1. }
+      { exact Hop2. }
+      exists g. split; [exact Hg|]. cbn [app] in G2, G3, G4.
+      split; [rewrite G1; unfold y, x; rewrite Nat.eqb_refl; reflexivity|].
+      rewrite G2, G3, G4, Hkt2, Hkt3, Hkt4, Hot2, Hot3, Hot4, Hb2, Hb3, Hb4, (Hx ids Hpn), (Hy ids Hpn).
+      pose proof (perm_children (fun c => gatoms (blk c)) AT cs (fun c Hc => proj1 (proj2 (proj2 (Hsub c Hc))))) as P1.
+      pose proof (perm_children (fun c => [kw c; ow c; cw c] ++ gbnd (blk c)) EB cs
+                    (fun c Hc => proj1 (proj2 (proj2 (proj2 (Hsub c Hc)))))) as P2.
+      pose proof (perm_children (fun c => gglue (blk c)) OP cs (fun c Hc => proj2 (proj2 (proj2 (proj2 (Hsub c Hc)))))) as P3.
+      fold ids in P1, P2, P3. rewrite <- (perm_edge_sum3 kw ow cw (fun c => gbnd (blk c)) ids) in P2.
+      rewrite <- P1, <- P2, <- P3. unfold AT at 1. unfold EB at 1. unfold OP at 1.
+      split; [|split]; perm_solve.
+  Qed.
+
+  Lemma wf_sub3_nodes po t : wf_sub3 woff ket op po t -> forall m, In m (rnodes t) -> In m (akeys (nodes ket)).
+  Proof.
+    induction 1 as [po n cs Hok Hcs IH]. intros m Hm. cbn [rnodes] in Hm. destruct Hm as [<-|Hm].
+    - destruct Hok as (kn & on & Hk & _). eapply aget_akeys; eassumption.
+    - apply in_flat_map in Hm. destruct Hm as (c & Hc & Hm). eapply IH; eassumption.
+  Qed.
+
+  Theorem three_closed_aux t : wf_three woff ket op t ->
+    exists g, expectation_value woff aoff ket op = Some g /\
+      gaxes g = [] /\
+      Permutation (gatoms g) (flat_map AT (rnodes t)) /\
+      Permutation (gbnd g) (flat_map EB (rdesc t) ++ t_bnd ket (rid t) ++ t_bnd op (rid t) ++ map (Nat.add woff) (t_bnd ket (rid t))) /\
+      Permutation (gglue g) ([(ko (rid t), oi (rid t)); (woff + ko (rid t), oo (rid t))] ++ flat_map OP (rdesc t)).
+  Proof.
+    intros (Hrk & Hro & Hnodup & Hwf).
+    assert (Hsize : length (rnodes t) <= length (nodes ket)).
+    { replace (length (nodes ket)) with (length (akeys (nodes ket))) by apply map_length.
+      apply NoDup_incl_length; [exact Hnodup|]. intros m Hm. eapply wf_sub3_nodes; eassumption. }
+    inversion Hwf as [po n cs Hok Hcs E1 E2]. subst po t. cbn [rid] in *.
+    destruct Hok as (kn & on & Hk & Ho & Hpk & Hpo & Hck & Hco & Hnd & Hkax & Hoax & Hop1 & Hop2).
+    cbn [opt_list app] in Hkax, Hoax.
+    destruct (tensor_of_view ket n kn Hk) as (kt & Hkt & Hkt1 & Hkt2 & Hkt3 & Hkt4 & Hkt5).
+    { rewrite Hkax. intros E. apply (f_equal (@length _)) in E. rewrite app_length in E. cbn in E. lia. }
+    destruct (tensor_of_view op n on Ho) as (ot & Hot & Hot1 & Hot2 & Hot3 & Hot4 & Hot5).
+    { rewrite Hoax. intros E. apply (f_equal (@length _)) in E. rewrite app_length in E. cbn in E. lia. }
+    fold kw ow ko oo oi in Hkax, Hoax, Hop1, Hop2 |- *.
+    set (bt := conj_arr woff aoff kt).
+    assert (Hb2 : gatoms bt = map (Nat.add aoff) (t_atoms ket n)) by (unfold bt; cbn; rewrite Hkt2; reflexivity).
+    assert (Hb3 : gbnd bt = map (Nat.add woff) (t_bnd ket n)) by (unfold bt; cbn; rewrite Hkt3; reflexivity).
+    assert (Hb4 : gglue bt = []) by (unfold bt; cbn; rewrite Hkt4; reflexivity).
+    set (ids := map rid cs) in *.
+    assert (Hnbk : neighbouring_nodes kn = ids) by (unfold neighbouring_nodes; rewrite Hpk, Hck; reflexivity).
+    assert (Hnbo : neighbouring_nodes on = children on) by (unfold neighbouring_nodes; rewrite Hpo; reflexivity).
+    rewrite (expectation_value_root woff aoff ket op n kn on kt ot Hrk Hro Hk Ho Hkt Hot). rewrite Hck. fold bt.
+    set (f := length (nodes ket)) in *. set (blk := blk3_of f n kt).
+    assert (Hsub : forall c, In c cs ->
+              block_three f woff aoff ket op (rid c) n = Some (blk (rid c)) /\
+              gaxes (blk (rid c)) = [kw (rid c); ow (rid c); cw (rid c)] /\
+              Permutation (gatoms (blk (rid c))) (flat_map AT (rnodes c)) /\
+              Permutation ([kw (rid c); ow (rid c); cw (rid c)] ++ gbnd (blk (rid c))) (flat_map EB (rnodes c)) /\
+              Permutation (gglue (blk (rid c))) (flat_map OP (rnodes c))).
+    { intros c Hc. destruct (block_three_closed (Some n) c (Hcs c Hc) n f eq_refl) as (g & Hg & HH).
+      - cbn [rnodes length] in Hsize. pose proof (flat_map_length_in rnodes cs c Hc). lia.
+      - unfold blk, blk3_of. rewrite Hg. split; [reflexivity|exact HH]. }
+    assert (Hids : forall a, In a ids -> exists c, In c cs /\ rid c = a).
+    { intros a Ha. apply in_map_iff in Ha. destruct Ha as (c & E & Hc). eauto. }
+    assert (Hblocks : all_some (map (fun c => option_map (fun b => (c, b)) (block_three f woff aoff ket op c n)) ids)
+                      = Some (map (fun c => (c, blk c)) ids)).
+    { apply all_some_total. intros a Ha. destruct (Hids a Ha) as (c & Hc & <-).
+      destruct (Hsub c Hc) as (-> & _). reflexivity. }
+    rewrite Hblocks.
+    destruct (root_three_axes bt kt ot kn on (map (fun c => (c, blk c)) ids) kw ow cw blk (ko n) (oo n) (oi n) (woff + ko n))
+      as (g & Hg & G1 & G2 & G3 & G4).
+    { exact Hnd. }
+    { rewrite Hnbk, Hnbo. exact Hco. }
+    { rewrite Hnbk, Hkt1, Hkax. reflexivity. }
+    { rewrite Hnbo, Hot1, Hoax. reflexivity. }
+    { unfold bt. cbn [conj_arr gaxes]. rewrite Hkt1, Hkax, Hnbk. rewrite map_app, map_map. reflexivity. }
+    { rewrite Hnbk. intros nb Hnb. split; [apply aget_map_pair; exact Hnb|].
+      destruct (Hids nb Hnb) as (c & Hc & <-). apply Hsub. exact Hc. }
+    { exact Hop1. }
+    { intros E. apply Hop2. symmetry. exact E. }
+    exists g. split; [exact Hg|]. split; [exact G1|].
+    rewrite Hnbk in G2, G3, G4.
+    cbn [rnodes rdesc rcs flat_map].
+    pose proof (perm_children (fun c => gatoms (blk c)) AT cs (fun c Hc => proj1 (proj2 (proj2 (Hsub c Hc))))) as P1.
+    pose proof (perm_children (fun c => [kw c; ow c; cw c] ++ gbnd (blk c)) EB cs
+                  (fun c Hc => proj1 (proj2 (proj2 (proj2 (Hsub c Hc)))))) as P2.
+    pose proof (perm_children (fun c => gglue (blk c)) OP cs (fun c Hc => proj2 (proj2 (proj2 (proj2 (Hsub c Hc)))))) as P3.
+    fold ids in P1, P2, P3. rewrite <- (perm_edge_sum3 kw ow cw (fun c => gbnd (blk c)) ids) in P2.
+    rewrite G2, G3, G4, Hkt2, Hkt3, Hkt4, Hot2, Hot3, Hot4, Hb2, Hb3, Hb4.
+    rewrite <- P1, <- P2, <- P3. unfold AT at 1.
+    split; [|split]; perm_solve.
+  Qed.
+End Global3.
+
+(* every block of the three-layer recursion: three legs (ket, operator, conjugate copy towards the parent) and
+   the subtree closed *)
+Theorem block_three_subtree_closed woff aoff ket op p t fuel :
+  wf_sub3 woff ket op (Some p) t -> length (rnodes t) <= fuel ->
+  exists g, block_three fuel woff aoff ket op (rid t) p = Some g /\
+    gaxes g = [up_wire ket (rid t); up_wire op (rid t); woff + up_wire ket (rid t)] /\
+    Permutation (gatoms g) (all_atoms3 aoff ket op (rnodes t)) /\
+    Permutation (gbnd g) (edge_wires3 woff ket op (rdesc t) ++ inner_bnd3 woff ket op (rnodes t)) /\
+    Permutation (gglue g) (open_pairs3 woff ket op (rnodes t)).
+Proof.
+  intros Hwf Hfuel.
+  destruct (block_three_closed woff aoff ket op (Some p) t Hwf p fuel eq_refl Hfuel) as (g & Hg & H1 & H2 & H3 & H4).
+  exists g. split; [exact Hg|]. split; [exact H1|]. split; [exact H2|]. split; [|exact H4].
+  rewrite rnodes_desc in H3. cbn [flat_map] in H3. rewrite perm_flat_map_split in H3.
+  rewrite <- app_assoc in H3. apply Permutation_app_inv_l in H3. rewrite H3.
+  unfold edge_wires3, inner_bnd3. rewrite rnodes_desc. cbn [flat_map]. perm_solve.
+Qed.
+
+(* expectation_value succeeds on every consistent (state, operator) pair, whatever the tree and the two
+   independent child orders, and its result is the closed three-layer network: at every node the ket's open leg
+   is glued to the operator's input leg and the operator's output leg to the conjugate copy's open leg *)
+Theorem expectation_value_closed woff aoff ket op t :
+  wf_three woff ket op t ->
+  exists g, expectation_value woff aoff ket op = Some g /\
+    gaxes g = [] /\
+    Permutation (gatoms g) (all_atoms3 aoff ket op (rnodes t)) /\
+    Permutation (gbnd g) (edge_wires3 woff ket op (rdesc t) ++ inner_bnd3 woff ket op (rnodes t)) /\
+    Permutation (gglue g)
+      ([(open_wire ket (rid t), in_wire op (rid t)); (woff + open_wire ket (rid t), out_wire op (rid t))]
+       ++ open_pairs3 woff ket op (rdesc t)).
+Proof.
+  intros Hwf. destruct (three_closed_aux woff aoff ket op t Hwf) as (g & Hg & H1 & H2 & H3 & H4).
+  exists g. split; [exact Hg|]. split; [exact H1|]. split; [exact H2|]. split; [|exact H4].
+  rewrite H3, perm_flat_map_split. unfold edge_wires3, inner_bnd3. rewrite (rnodes_desc t). cbn [flat_map]. perm_solve.
+Qed.
+
+Lemma node_ok3b_sound woff ket op p n cs : node_ok3b woff ket op p n cs = true -> node_ok3 woff ket op p n cs.
+Proof.
+  unfold node_ok3b. destruct (aget n (nodes ket)) as [kn|] eqn:Hk; [|discriminate].
+  destruct (aget n (nodes op)) as [on|] eqn:Ho; [|discriminate].
+  intros H. repeat (apply andb_prop in H; let H' := fresh "H" in destruct H as [H H']).
+  exists kn, on. repeat split; auto using opt_eqb_true, cl_list_eqb, perm_of_nodupb_sound.
+  - apply cl_nodupb. assumption.
+  - apply negb_true_iff, Nat.eqb_neq in H1. exact H1.
+  - apply negb_true_iff, Nat.eqb_neq in H0. exact H0.
+Qed.
+
+Lemma wf_sub3b_sound woff ket op t : forall p, wf_sub3b woff ket op p t = true -> wf_sub3 woff ket op p t.
+Proof.
+  induction t as [n cs IH] using rt_rect'. intros p H. cbn [wf_sub3b] in H. apply andb_prop in H. destruct H as [H1 H2].
+  constructor; [apply node_ok3b_sound; exact H1|].
+  intros c Hc. apply IH; [exact Hc|]. rewrite forallb_forall in H2. apply H2. exact Hc.
+Qed.
+
+Lemma wf_threeb_sound woff ket op t : wf_threeb woff ket op t = true -> wf_three woff ket op t.
+Proof.
+  unfold wf_threeb, wf_three. intros H. repeat (apply andb_prop in H; let H' := fresh "H" in destruct H as [H H']).
+  repeat split; auto using opt_eqb_true, wf_sub3b_sound. apply cl_nodupb. assumption.
+Qed.
+
+Theorem three_ok_closed woff aoff ket op :
+  three_ok woff ket op = true ->
+  exists t g, ket_tree ket = Some t /\ expectation_value woff aoff ket op = Some g /\
+    gaxes g = [] /\
+    Permutation (gatoms g) (all_atoms3 aoff ket op (rnodes t)) /\
+    Permutation (gbnd g) (edge_wires3 woff ket op (rdesc t) ++ inner_bnd3 woff ket op (rnodes t)) /\
+    Permutation (gglue g)
+      ([(open_wire ket (rid t), in_wire op (rid t)); (woff + open_wire ket (rid t), out_wire op (rid t))]
+       ++ open_pairs3 woff ket op (rdesc t)).
+Proof.
+  unfold three_ok. destruct (ket_tree ket) as [t|]; [|discriminate]. intros H.
+  destruct (expectation_value_closed woff aoff ket op t (wf_threeb_sound _ _ _ _ H)) as (g & Hg). exists t, g. split; [reflexivity|exact Hg].
+Qed.
+
+(* the tree read off the recursion covers the whole store when the store has no further nodes *)
+Lemma wf_two_covers ket bra t :
+  wf_two ket bra t -> length (nodes ket) <= length (rnodes t) -> Permutation (rnodes t) (akeys (nodes ket)).
+Proof.
+  intros (_ & _ & Hnd & Hwf) Hlen. apply NoDup_Permutation_bis; [exact Hnd| |].
+  - unfold akeys. rewrite map_length. exact Hlen.
+  - intros m Hm. eapply wf_sub_nodes; eassumption.
 Qed.
